@@ -1,1 +1,1528 @@
-(* placeholder *)
+(* Proofs about the event-level parent-link replication model (Parents.v): C05, its part of C09,
+   the S19 ping-pong, joins, stability. *)
+From Coq Require Import NArith List Lia.
+From stdpp Require Import gmap list.
+From BS Require Import Abs.Parents.
+
+(* ================================================================================================
+   Part 0: channel operations, sums over the connected clients
+   ================================================================================================ *)
+
+Lemma plget_insert L a b l a' b' :
+  plget (<[(a, b) := l]> L) a' b' = if decide ((a', b') = (a, b)) then l else plget L a' b'.
+Proof.
+  unfold plget. destruct (decide ((a', b') = (a, b))) as [Heq|Hne].
+  - rewrite Heq, lookup_insert. reflexivity.
+  - rewrite lookup_insert_ne by congruence. reflexivity.
+Qed.
+
+Lemma plget_push_link L a b vs a' b' :
+  plget (ppush_link L a b vs) a' b' = if decide ((a', b') = (a, b)) then plget L a b ++ vs else plget L a' b'.
+Proof. unfold ppush_link. apply plget_insert. Qed.
+
+Lemma plget_send_to L src dsts vs a b :
+  NoDup dsts ->
+  plget (psend_to L src dsts vs) a b = if decide (a = src /\ b ∈ dsts) then plget L a b ++ vs else plget L a b.
+Proof.
+  intros Hnd. induction Hnd as [|d dsts Hnotin Hnd IH]; simpl.
+  - destruct (decide (a = src /\ b ∈ [])) as [[_ Hin]|_]; [inversion Hin|reflexivity].
+  - rewrite plget_push_link. destruct (decide ((a, b) = (src, d))) as [Heq|Hne].
+    + inversion Heq; subst. rewrite IH.
+      destruct (decide (src = src /\ d ∈ dsts)) as [[_ Hin]|_]; [contradiction|].
+      destruct (decide (src = src /\ d ∈ d :: dsts)) as [_|Hn]; [reflexivity|].
+      exfalso. apply Hn. split; [reflexivity|left].
+    + rewrite IH. destruct (decide (a = src /\ b ∈ dsts)) as [[-> Hin]|Hn].
+      * destruct (decide (src = src /\ b ∈ d :: dsts)) as [_|Hn2]; [reflexivity|].
+        exfalso. apply Hn2. split; [reflexivity|right; exact Hin].
+      * destruct (decide (a = src /\ b ∈ d :: dsts)) as [[-> Hin]|_]; [|reflexivity].
+        exfalso. apply elem_of_cons in Hin as [->|Hin]; [apply Hne; reflexivity|apply Hn; auto].
+Qed.
+
+Lemma NoDup_pothers src l : NoDup l -> NoDup (pothers src l).
+Proof. intros H. unfold pothers. apply NoDup_filter. exact H. Qed.
+
+Lemma elem_of_pothers src l c : c ∈ pothers src l <-> c <> src /\ c ∈ l.
+Proof. unfold pothers. rewrite elem_of_list_filter. reflexivity. Qed.
+
+Lemma pothers_notin src l : src ∉ l -> pothers src l = l.
+Proof.
+  induction l as [|a l IH]; intros Hn; [reflexivity|].
+  unfold pothers in *. rewrite filter_cons. destruct (decide (a <> src)) as [_|Heq].
+  - f_equal. apply IH. intros H. apply Hn. right. exact H.
+  - exfalso. apply Hn. destruct (decide (a = src)) as [->|Hne]; [left|contradiction].
+Qed.
+
+Lemma length_pothers src l : NoDup l -> src ∈ l -> length (pothers src l) + 1 = length l.
+Proof.
+  intros Hnd. induction Hnd as [|a l Hnotin Hnd IH]; intros Hin; [inversion Hin|].
+  unfold pothers in *. rewrite filter_cons. destruct (decide (a <> src)) as [Hne|Heq].
+  - simpl. apply elem_of_cons in Hin as [->|Hin]; [contradiction|]. rewrite <- (IH Hin). lia.
+  - assert (a = src) as -> by (destruct (decide (a = src)); [assumption|contradiction]).
+    fold (pothers src l). rewrite pothers_notin by exact Hnotin. simpl. lia.
+Qed.
+
+Lemma sumf_ext f g l : (forall c, c ∈ l -> g c = f c) -> sumf g l = sumf f l.
+Proof.
+  induction l as [|a l IH]; intros H; [reflexivity|]. simpl.
+  rewrite (H a) by left. rewrite IH; [reflexivity|]. intros c Hc. apply H. right. exact Hc.
+Qed.
+
+Lemma sumf_one f g l c :
+  NoDup l -> c ∈ l -> (forall c', c' ∈ l -> c' <> c -> g c' = f c') ->
+  sumf g l + f c = sumf f l + g c.
+Proof.
+  intros Hnd. induction Hnd as [|a l Hnotin Hnd IH]; intros Hin H; [inversion Hin|]. simpl.
+  apply elem_of_cons in Hin as [->|Hin].
+  - rewrite (sumf_ext f g l); [lia|]. intros c' Hc'. apply H; [right; exact Hc'|]. intros ->. contradiction.
+  - rewrite (H a); [|left|intros ->; contradiction].
+    specialize (IH Hin). lapply IH; [lia|]. intros c' Hc' Hne. apply H; [right; exact Hc'|exact Hne].
+Qed.
+
+Lemma sumf_all1 f g l : (forall c, c ∈ l -> g c = f c + 1) -> sumf g l = sumf f l + length l.
+Proof.
+  induction l as [|a l IH]; intros H; [reflexivity|]. simpl.
+  rewrite (H a) by left. rewrite IH; [lia|]. intros c Hc. apply H. right. exact Hc.
+Qed.
+
+Lemma sumf_others f g l c :
+  NoDup l -> c ∈ l -> g c = f c -> (forall c', c' ∈ l -> c' <> c -> g c' = f c' + 1) ->
+  sumf g l + 1 = sumf f l + length l.
+Proof.
+  intros Hnd. induction Hnd as [|a l Hnotin Hnd IH]; intros Hin Hc H; [inversion Hin|]. simpl.
+  apply elem_of_cons in Hin as [->|Hin].
+  - rewrite Hc. rewrite (sumf_all1 f g l); [lia|].
+    intros c' Hc'. apply H; [right; exact Hc'|]. intros ->. contradiction.
+  - rewrite (H a); [|left|intros ->; contradiction].
+    specialize (IH Hin Hc). lapply IH; [lia|]. intros c' Hc' Hne. apply H; [right; exact Hc'|exact Hne].
+Qed.
+
+Lemma sumf_zero f l : sumf f l = 0 <-> forall c, c ∈ l -> f c = 0.
+Proof.
+  induction l as [|a l IH]; simpl.
+  - split; [intros _ c Hc; inversion Hc|reflexivity].
+  - split.
+    + intros H c Hc. apply elem_of_cons in Hc as [->|Hc]; [lia|]. apply IH; [lia|exact Hc].
+    + intros H. rewrite (H a) by left. simpl. apply IH. intros c Hc. apply H. right. exact Hc.
+Qed.
+
+Lemma sumf_bound f l k : (forall c, c ∈ l -> f c <= k) -> sumf f l <= k * length l.
+Proof.
+  induction l as [|a l IH]; intros H; simpl; [lia|].
+  specialize (H a (elem_of_list_here a l)) as Ha.
+  lapply IH; [nia|]. intros c Hc. apply H. right. exact Hc.
+Qed.
+
+Lemma sumf_app f l1 l2 : sumf f (l1 ++ l2) = sumf f l1 + sumf f l2.
+Proof. induction l1 as [|a l1 IH]; simpl; [reflexivity|]. rewrite IH. lia. Qed.
+
+(* ================================================================================================
+   Part 1: getters after one step
+   ================================================================================================ *)
+
+Lemma pget_insert m c l p x : pget (PState (<[p := x]> m) c l) p = x.
+Proof. unfold pget. simpl. rewrite lookup_insert. reflexivity. Qed.
+Lemma pget_insert_ne m c l p q x :
+  q <> p -> pget (PState (<[p := x]> m) c l) q = pget (PState m c l) q.
+Proof. intros H. unfold pget. simpl. rewrite lookup_insert_ne by congruence. reflexivity. Qed.
+Lemma pget_exists s p x : pp s !! p = Some x -> pget s p = x.
+Proof. intros H. unfold pget. rewrite H. reflexivity. Qed.
+Lemma pget_none s p : pp s !! p = None -> pget s p = ppeer0.
+Proof. intros H. unfold pget. rewrite H. reflexivity. Qed.
+
+Lemma is_Some_insert_same (m : gmap peer ppeer) p x y q :
+  m !! p = Some y -> is_Some (<[p := x]> m !! q) <-> is_Some (m !! q).
+Proof.
+  intros Hy. destruct (decide (q = p)) as [->|Hne].
+  - rewrite lookup_insert, Hy. split; eauto.
+  - rewrite lookup_insert_ne by congruence. reflexivity.
+Qed.
+
+(* PSet *)
+Lemma step_set s p u s' :
+  pstep s (PSet p u) = Some s' ->
+  is_Some (pp s !! p) /\ pconn s' = pconn s /\ plinks s' = plinks s /\
+  (forall q, is_Some (pp s' !! q) <-> is_Some (pp s !! q)) /\
+  (forall q, ppar s' q = if decide (q = p) then Some u else ppar s q) /\
+  (forall q, pchg s' q = if decide (q = p) then true else pchg s q).
+Proof.
+  simpl. destruct (pp s !! p) as [x|] eqn:Hx; [|discriminate]. intros [= <-].
+  split; [eauto|]. split; [reflexivity|]. split; [reflexivity|]. split; [|split].
+  - intros q. simpl. eapply is_Some_insert_same. exact Hx.
+  - intros q. unfold ppar, pset_peer. destruct (decide (q = p)) as [->|Hne].
+    + rewrite pget_insert. reflexivity.
+    + destruct s; simpl. rewrite pget_insert_ne by exact Hne. reflexivity.
+  - intros q. unfold pchg, pset_peer. destruct (decide (q = p)) as [->|Hne].
+    + rewrite pget_insert. reflexivity.
+    + destruct s; simpl. rewrite pget_insert_ne by exact Hne. reflexivity.
+Qed.
+
+Lemma NoDup_pdsts s p : NoDup (pconn s) -> NoDup (pdsts s p).
+Proof. intros H. unfold pdsts. destruct (p =? host)%N; [exact H|apply NoDup_singleton]. Qed.
+
+(* PAnnounce *)
+Lemma step_announce s p s' :
+  NoDup (pconn s) ->
+  pstep s (PAnnounce p) = Some s' ->
+  is_Some (pp s !! p) /\
+  ((pchg s p = false /\ s' = s) \/
+   (pchg s p = true /\ pconn s' = pconn s /\
+    (forall q, is_Some (pp s' !! q) <-> is_Some (pp s !! q)) /\
+    (forall q, ppar s' q = ppar s q) /\
+    (forall q, pchg s' q = if decide (q = p) then false else pchg s q) /\
+    (forall a b, plink s' a b =
+       if decide (a = p /\ b ∈ pdsts s p) then plink s a b ++ plink_msg (ppar s p) else plink s a b))).
+Proof.
+  intros Hnd. simpl. destruct (pp s !! p) as [x|] eqn:Hx; [|discriminate].
+  intros Hstep. split; [eauto|]. revert Hstep. unfold pchg, ppar. rewrite (pget_exists _ _ _ Hx).
+  destruct (changed x) eqn:Hc; intros [= <-]; [right|left; auto].
+  split; [reflexivity|]. split; [reflexivity|]. split; [|split; [|split]].
+  - intros q. simpl. eapply is_Some_insert_same. exact Hx.
+  - intros q. destruct (decide (q = p)) as [->|Hne].
+    + rewrite pget_insert, (pget_exists _ _ _ Hx). reflexivity.
+    + destruct s; simpl. rewrite pget_insert_ne by exact Hne. reflexivity.
+  - intros q. destruct (decide (q = p)) as [->|Hne].
+    + rewrite pget_insert. reflexivity.
+    + destruct s; simpl. rewrite pget_insert_ne by exact Hne. reflexivity.
+  - intros a b. unfold plink. simpl. apply plget_send_to. apply NoDup_pdsts. exact Hnd.
+Qed.
+
+(* PDeliver *)
+Lemma step_deliver s src dst s' :
+  NoDup (pconn s) ->
+  pstep s (PDeliver src dst) = Some s' ->
+  exists u rest, plink s src dst = u :: rest /\ is_Some (pp s !! dst) /\ pconn s' = pconn s /\
+  (forall q, is_Some (pp s' !! q) <-> is_Some (pp s !! q)) /\
+  (forall q, ppar s' q = if decide (q = dst) then Some u else ppar s q) /\
+  (forall q, pchg s' q = if decide (q = dst) then pchg s dst || negb (bool_decide (ppar s dst = Some u))
+                         else pchg s q) /\
+  (forall a b, plink s' a b =
+      (if decide ((a, b) = (src, dst)) then rest else plink s a b) ++
+      (if decide (dst = host /\ a = host /\ b ∈ pothers src (pconn s)) then [u] else [])).
+Proof.
+  intros Hnd. simpl. destruct (plink s src dst) as [|u rest] eqn:Hl; [discriminate|].
+  destruct (pp s !! dst) as [x|] eqn:Hx; [|discriminate].
+  intros [= <-]. exists u, rest.
+  split; [reflexivity|]. split; [eauto|]. split; [reflexivity|].
+  unfold ppar, pchg. rewrite (pget_exists _ _ _ Hx).
+  split; [|split; [|split]].
+  - intros q. simpl. destruct (bool_decide (par x = Some u)); [reflexivity|].
+    eapply is_Some_insert_same. exact Hx.
+  - intros q. destruct (bool_decide (par x = Some u)) eqn:Hc.
+    + apply bool_decide_eq_true in Hc. destruct (decide (q = dst)) as [->|Hne]; [|reflexivity].
+      unfold pget. simpl. rewrite Hx. exact Hc.
+    + destruct (decide (q = dst)) as [->|Hne].
+      * rewrite pget_insert. reflexivity.
+      * destruct s; simpl. rewrite pget_insert_ne by exact Hne. reflexivity.
+  - intros q. destruct (bool_decide (par x = Some u)) eqn:Hc.
+    + destruct (decide (q = dst)) as [->|Hne]; [|reflexivity].
+      unfold pget. simpl. rewrite Hx. simpl. rewrite orb_false_r. reflexivity.
+    + destruct (decide (q = dst)) as [->|Hne].
+      * rewrite pget_insert. simpl. rewrite orb_true_r. reflexivity.
+      * destruct s; simpl. rewrite pget_insert_ne by exact Hne. reflexivity.
+  - intros a b. unfold plink. simpl. destruct (dst =? host)%N eqn:Hd.
+    + apply N.eqb_eq in Hd. subst dst. rewrite plget_send_to by (apply NoDup_pothers; exact Hnd).
+      rewrite plget_insert.
+      destruct (decide (a = host /\ b ∈ pothers src (pconn s))) as [[-> Hin]|Hn].
+      * destruct (decide (host = host /\ host = host /\ b ∈ pothers src (pconn s))) as [_|Hn]; [reflexivity|tauto].
+      * destruct (decide (host = host /\ a = host /\ b ∈ pothers src (pconn s))) as [[_ Hy]|_]; [tauto|].
+        rewrite app_nil_r. reflexivity.
+    + apply N.eqb_neq in Hd. rewrite plget_insert.
+      destruct (decide (dst = host /\ _)) as [[Hy _]|_]; [contradiction|]. rewrite app_nil_r. reflexivity.
+Qed.
+
+(* PJoin *)
+Lemma step_join s c s' :
+  pstep s (PJoin c) = Some s' ->
+  c <> host /\ c ∉ pconn s /\ pp s !! c = None /\ pconn s' = pconn s ++ [c] /\
+  (forall q, is_Some (pp s' !! q) <-> is_Some (pp s !! q) \/ q = c) /\
+  (forall q, pget s' q = pget s q) /\
+  (forall a b, plink s' a b =
+     if decide ((a, b) = (host, c)) then plink s host c ++ plink_msg (ppar s host) else plink s a b).
+Proof.
+  simpl. destruct (c =? host)%N eqn:Hc; [discriminate|]. apply N.eqb_neq in Hc.
+  destruct (bool_decide (c ∈ pconn s)) eqn:Hin; [discriminate|]. apply bool_decide_eq_false in Hin.
+  unfold ppexists. destruct (bool_decide (is_Some (pp s !! c))) eqn:Hex; [discriminate|].
+  apply bool_decide_eq_false in Hex. simpl. intros [= <-].
+  assert (Hnone : pp s !! c = None) by (destruct (pp s !! c); [exfalso; eauto|reflexivity]).
+  split; [exact Hc|]. split; [exact Hin|]. split; [exact Hnone|]. split; [reflexivity|]. split; [|split].
+  - intros q. simpl. destruct (decide (q = c)) as [->|Hne].
+    + rewrite lookup_insert. split; eauto.
+    + rewrite lookup_insert_ne by congruence. split; [auto|]. intros [H|H]; [exact H|contradiction].
+  - intros q. unfold pget. simpl. destruct (decide (q = c)) as [->|Hne].
+    + rewrite lookup_insert, Hnone. reflexivity.
+    + rewrite lookup_insert_ne by congruence. reflexivity.
+  - intros a b. unfold plink. simpl. apply plget_push_link.
+Qed.
+
+Lemma join_par s c s' q : pstep s (PJoin c) = Some s' -> ppar s' q = ppar s q.
+Proof. intros H. apply step_join in H as (_ & _ & _ & _ & _ & Hg & _). unfold ppar. rewrite Hg. reflexivity. Qed.
+Lemma join_chg s c s' q : pstep s (PJoin c) = Some s' -> pchg s' q = pchg s q.
+Proof. intros H. apply step_join in H as (_ & _ & _ & _ & _ & Hg & _). unfold pchg. rewrite Hg. reflexivity. Qed.
+
+(* ================================================================================================
+   Part 2: well-formedness, the initial state, quiescence through getters
+   ================================================================================================ *)
+
+Lemma wf_nodup s : pwf s -> NoDup (pconn s).
+Proof. intros (H & _). exact H. Qed.
+Lemma wf_host s : pwf s -> host ∉ pconn s.
+Proof. intros (_ & H & _). exact H. Qed.
+Lemma wf_exists s p : pwf s -> is_Some (pp s !! p) <-> ppeers s p.
+Proof. intros (_ & _ & H & _). apply H. Qed.
+Lemma wf_link s a b : pwf s -> plink s a b <> [] -> (a = host /\ b ∈ pconn s) \/ (b = host /\ a ∈ pconn s).
+Proof. intros (_ & _ & _ & H). apply H. Qed.
+Lemma wf_conn_ne s c : pwf s -> c ∈ pconn s -> c <> host.
+Proof. intros Hwf Hc ->. eapply wf_host; eauto. Qed.
+Lemma wf_link_nil s a b : pwf s -> a ∉ pconn s -> b ∉ pconn s -> plink s a b = [].
+Proof.
+  intros Hwf Ha Hb. destruct (plink s a b) eqn:Hl; [reflexivity|].
+  destruct (wf_link s a b Hwf) as [[_ H]|[_ H]]; [rewrite Hl; discriminate|contradiction|contradiction].
+Qed.
+Lemma wf_absent s p : pwf s -> ~ ppeers s p -> ppar s p = None /\ pchg s p = false.
+Proof.
+  intros Hwf Hp. unfold ppar, pchg. rewrite pget_none; [auto|].
+  destruct (pp s !! p) eqn:Hx; [|reflexivity]. exfalso. apply Hp. apply (wf_exists s p Hwf). eauto.
+Qed.
+
+Lemma step_wf s e s' : pwf s -> pstep s e = Some s' -> pwf s'.
+Proof.
+  intros Hwf Hstep. pose proof Hwf as (Hnd & Hh & Hex & Hlk). destruct e as [p u|p|src dst|c].
+  - apply step_set in Hstep as (_ & Hc & Hl & He & _).
+    unfold pwf, ppeers, plink. rewrite Hc, Hl. repeat split; try assumption.
+    + intros H. apply Hex, He, H. + intros H. apply He, Hex, H.
+  - apply step_announce in Hstep as (Hp & [(_ & ->)|(_ & Hc & He & _ & _ & Hl)]); [exact Hwf| |exact Hnd].
+    unfold pwf, ppeers. rewrite Hc. repeat split; try assumption.
+    + intros H. apply Hex, He, H. + intros H. apply He, Hex, H.
+    + intros a b. rewrite Hl. destruct (decide (a = p /\ b ∈ pdsts s p)) as [[-> Hin]|_]; [|apply Hlk].
+      intros _. unfold pdsts in Hin. destruct (p =? host)%N eqn:Hph.
+      * apply N.eqb_eq in Hph. left. auto.
+      * apply N.eqb_neq in Hph. apply elem_of_list_singleton in Hin. right. split; [exact Hin|].
+        apply Hex in Hp as [Hp|Hp]; [contradiction|exact Hp].
+  - apply step_deliver in Hstep as (u & rest & Hl0 & Hd & Hc & He & _ & _ & Hl); [|exact Hnd].
+    unfold pwf, ppeers. rewrite Hc. repeat split; try assumption.
+    + intros H. apply Hex, He, H. + intros H. apply He, Hex, H.
+    + intros a b. rewrite Hl.
+      destruct (decide (dst = host /\ a = host /\ b ∈ pothers src (pconn s))) as [(_ & -> & Hin)|_].
+      * intros _. left. split; [reflexivity|]. apply elem_of_pothers in Hin. tauto.
+      * rewrite app_nil_r. destruct (decide ((a, b) = (src, dst))) as [Heq|_]; [|apply Hlk].
+        inversion Heq; subst. intros _. apply Hlk. rewrite Hl0. discriminate.
+  - apply step_join in Hstep as (Hc0 & Hcn & Hnone & Hc & He & _ & Hl).
+    unfold pwf, ppeers. rewrite Hc. split; [|split; [|split]].
+    + apply NoDup_app. split; [exact Hnd|]. split; [|apply NoDup_singleton].
+      intros x Hx Hx'. apply elem_of_list_singleton in Hx'. subst. contradiction.
+    + intros H. apply elem_of_app in H as [H|H]; [contradiction|]. apply elem_of_list_singleton in H. congruence.
+    + intros q. rewrite He, Hex. unfold ppeers. rewrite elem_of_app, elem_of_list_singleton. tauto.
+    + intros a b. rewrite Hl. rewrite elem_of_app, elem_of_app, !elem_of_list_singleton.
+      destruct (decide ((a, b) = (host, c))) as [Heq|_].
+      * inversion Heq; subst. intros _. left. auto.
+      * intros H. apply Hlk in H. tauto.
+Qed.
+
+Lemma run_wf s tr s' : pwf s -> prun s tr = Some s' -> pwf s'.
+Proof.
+  revert s. induction tr as [|e tr IH]; intros s Hwf Hrun; simpl in Hrun.
+  - congruence.
+  - destruct (pstep s e) as [s1|] eqn:Hs; [|discriminate]. eapply IH; [|exact Hrun]. eapply step_wf; eauto.
+Qed.
+
+Lemma prun_app s tr1 tr2 :
+  prun s (tr1 ++ tr2) = match prun s tr1 with Some s1 => prun s1 tr2 | None => None end.
+Proof. revert s. induction tr1 as [|e tr1 IH]; intros s; simpl; [reflexivity|]. destruct (pstep s e); [apply IH|reflexivity]. Qed.
+
+Lemma elem_of_pclients n p : p ∈ pclients n <-> (1 <= p <= N.of_nat n)%N.
+Proof.
+  unfold pclients. rewrite elem_of_list_fmap. split.
+  - intros (k & -> & Hk). apply elem_of_seq in Hk. lia.
+  - intros H. exists (N.to_nat p). split; [lia|]. apply elem_of_seq. lia.
+Qed.
+
+Lemma NoDup_pclients n : NoDup (pclients n).
+Proof. unfold pclients. apply NoDup_fmap_2; [intros a b; lia|apply NoDup_seq]. Qed.
+
+Lemma length_pclients n : length (pclients n) = n.
+Proof. unfold pclients. rewrite fmap_length, seq_length. reflexivity. Qed.
+
+Lemma pinit_pget n p : pget (pinit n) p = ppeer0.
+Proof.
+  unfold pget. destruct (pp (pinit n) !! p) as [x|] eqn:Hx; [|reflexivity]. simpl.
+  unfold pinit in Hx; cbn [pp] in Hx. apply elem_of_list_to_map_2 in Hx.
+  apply elem_of_list_fmap in Hx as (q & Heq & _). congruence.
+Qed.
+
+Lemma pinit_link n a b : plink (pinit n) a b = [].
+Proof. reflexivity. Qed.
+
+Lemma pinit_wf n : pwf (pinit n).
+Proof.
+  unfold pwf. split; [apply NoDup_pclients|]. split; [|split].
+  - simpl. rewrite elem_of_pclients. unfold host. lia.
+  - intros p. unfold pinit, ppeers; cbn [pp pconn].
+    set (l := (fun p => (p, ppeer0)) <$> host :: pclients n).
+    assert (Hfst : l.*1 = host :: pclients n).
+    { unfold l. rewrite <- list_fmap_compose. simpl. f_equal. induction (pclients n); simpl; congruence. }
+    split.
+    + intros [x Hx]. apply elem_of_list_to_map_2 in Hx. apply (elem_of_list_fmap_1 fst) in Hx.
+      rewrite Hfst in Hx. simpl in Hx. apply elem_of_cons in Hx. exact Hx.
+    + intros Hp. destruct (list_to_map l !! p) eqn:Hx; [eauto|].
+      apply not_elem_of_list_to_map in Hx. rewrite Hfst in Hx. exfalso. apply Hx. apply elem_of_cons. exact Hp.
+  - intros a b H. exfalso. apply H. reflexivity.
+Qed.
+
+Lemma pinit_quiescent n : pquiescent (pinit n).
+Proof.
+  split; [apply map_Forall_empty|].
+  intros p x Hx. unfold pinit in Hx; cbn [pp] in Hx. apply elem_of_list_to_map_2 in Hx.
+  apply elem_of_list_fmap in Hx as (q & Heq & _). inversion Heq; subst. reflexivity.
+Qed.
+
+Lemma quiescent_link s a b : pquiescent s -> plink s a b = [].
+Proof.
+  intros [H _]. unfold plink, plget. destruct (plinks s !! (a, b)) as [l|] eqn:Hl; [|reflexivity]. simpl. eapply H. exact Hl.
+Qed.
+Lemma quiescent_chg s p : pquiescent s -> pchg s p = false.
+Proof.
+  intros [_ H]. unfold pchg, pget. destruct (pp s !! p) as [x|] eqn:Hx; simpl; [|reflexivity].
+  apply (H p x Hx).
+Qed.
+Lemma quiescent_intro s : (forall a b, plink s a b = []) -> (forall p, pchg s p = false) -> pquiescent s.
+Proof.
+  intros Hl Hp. split.
+  - intros [a b] l Hx. specialize (Hl a b). unfold plink, plget in Hl. rewrite Hx in Hl. exact Hl.
+  - intros p x Hx. specialize (Hp p). unfold pchg, pget in Hp. rewrite Hx in Hp. exact Hp.
+Qed.
+Lemma quiescent_iff s : pquiescent s <-> (forall a b, plink s a b = []) /\ (forall p, pchg s p = false).
+Proof.
+  split; [|intros [H1 H2]; apply quiescent_intro; assumption].
+  intros H. split; [intros a b; apply quiescent_link; exact H|intros p; apply quiescent_chg; exact H].
+Qed.
+
+(* a state that is not quiescent has a raised flag or a message in flight *)
+Lemma not_quiescent s :
+  ~ pquiescent s -> (exists p, pchg s p = true) \/ (exists a b, plink s a b <> []).
+Proof.
+  intros Hn. destruct (decide (map_Forall (fun _ l => l = []) (plinks s))) as [Hl|Hl].
+  - left. destruct (decide (map_Forall (fun (_ : peer) x => changed x = false) (pp s))) as [Hp|Hp].
+    + exfalso. apply Hn. split; assumption.
+    + apply map_not_Forall in Hp; [|apply _]. destruct Hp as (p & x & Hx & Hc). exists p.
+      unfold pchg. rewrite (pget_exists _ _ _ Hx). destruct (changed x); [reflexivity|contradiction].
+  - right. apply map_not_Forall in Hl; [|apply _]. destruct Hl as ([a b] & l & Hx & Hc). exists a, b.
+    unfold plink, plget. rewrite Hx. exact Hc.
+Qed.
+
+(* ================================================================================================
+   Part 3: a quiescent state is stable -- only PSet / PJoin change anything
+   ================================================================================================ *)
+
+Theorem quiescent_is_stable s :
+  pquiescent s ->
+  forall e s', pstep s e = Some s' -> (match e with PSet _ _ | PJoin _ => True | _ => False end) \/ s' = s.
+Proof.
+  intros Hq e s' Hstep. destruct e as [p u|p|src dst|c]; [left; exact I| | |left; exact I]; right.
+  - simpl in Hstep. destruct (pp s !! p) as [x|] eqn:Hx; [|discriminate].
+    pose proof (quiescent_chg s p Hq) as Hc. unfold pchg in Hc. rewrite (pget_exists _ _ _ Hx) in Hc.
+    rewrite Hc in Hstep. congruence.
+  - simpl in Hstep. rewrite (quiescent_link s src dst Hq) in Hstep. discriminate.
+Qed.
+Print Assumptions quiescent_is_stable.
+
+Corollary quiescent_run_stable s tr s' :
+  pquiescent s -> Forall drain_event tr -> prun s tr = Some s' -> s' = s /\ ptotal_sent s tr = 0.
+Proof.
+  intros Hq Hd. revert s' . induction Hd as [|e tr He Hd IH]; intros s' Hrun; simpl in *; [split; congruence|].
+  destruct (pstep s e) as [s1|] eqn:Hs; [|discriminate].
+  destruct (quiescent_is_stable s Hq e s1 Hs) as [Hk | ->]; [destruct e; simpl in He, Hk; contradiction|].
+  destruct (IH s' Hrun) as [-> Ht]. split; [reflexivity|]. rewrite Ht.
+  destruct e as [p u|p|src dst|c]; simpl in *; try contradiction.
+  - rewrite (quiescent_chg _ _ Hq). reflexivity.
+  - rewrite (quiescent_link _ _ _ Hq). reflexivity.
+Qed.
+
+Example quiescent_is_stable_nonvacuous :
+  (fun s => (pquiescentb s, (fun s' => pview s' [0; 1; 2]%N) <$> pstep s (PAnnounce 2%N),
+             (fun s' => pview s' [0; 1; 2]%N) <$> pstep s (PDeliver 0%N 2%N),
+             (fun s' => pview s' [0; 1; 2]%N) <$> pstep s (PSet 2%N 8%N))) <$> prun (pinit 2) ex_single
+  = Some (true, Some ([Some 7; Some 7; Some 7]%N, true), None, Some ([Some 7; Some 7; Some 8]%N, false)).
+Proof. vm_compute. reflexivity. Qed.
+
+(* ================================================================================================
+   Part 4: KNOWN DEFECT S19 -- one peer re-parents the child twice without waiting: ping-pong
+   ================================================================================================ *)
+
+Global Instance ppeer_eq_dec : EqDecision ppeer.
+Proof. solve_decision. Defined.
+Global Instance pstate_eq_dec : EqDecision pstate.
+Proof. solve_decision. Defined.
+
+Lemma ptotal_sent_app s tr1 tr2 :
+  ptotal_sent s (tr1 ++ tr2) =
+  match prun s tr1 with Some s1 => ptotal_sent s tr1 + ptotal_sent s1 tr2 | None => ptotal_sent s tr1 end.
+Proof.
+  revert s. induction tr1 as [|e tr1 IH]; intros s; simpl; [reflexivity|].
+  destruct (pstep s e) as [s1|]; [|reflexivity]. rewrite IH. destruct (prun s1 tr1); lia.
+Qed.
+
+Fixpoint iter_tr (k : nat) (loop : list pevent) : list pevent :=
+  match k with O => [] | S k => loop ++ iter_tr k loop end.
+
+(* a cycle can be repeated for ever: an infinite execution, with unbounded traffic if the cycle sends *)
+Lemma cycle_forever s loop m :
+  prun s loop = Some s -> ptotal_sent s loop = m ->
+  forall k, prun s (iter_tr k loop) = Some s /\ ptotal_sent s (iter_tr k loop) = k * m.
+Proof.
+  intros Hrun Hsent k. induction k as [|k [IH1 IH2]]; simpl; [auto|].
+  rewrite prun_app, Hrun, ptotal_sent_app, Hrun, IH2, Hsent. auto.
+Qed.
+
+(* Two peers.  Frames in the order of the real plugin: a peer first announces what its
+   Changed<Parent> filter sees, then the links it received are applied (deferred commands).
+   Client 1 makes the child a child of 1; one frame of the client, one of the host (the host has now
+   applied 1 and will echo it); the client re-parents to 2; then lockstep frames.  The host's echo of
+   1 crosses the announcement of 2 and from then on the two values chase each other: the state after
+   the first lockstep round recurs every 3 rounds, 4 messages per period (observed on the real code:
+   80 messages in 60 rounds, never quiescent). *)
+Definition s19_prefix : list pevent :=
+  [PSet 1 1; PAnnounce 1;                   (* client frame *)
+   PAnnounce 0; PDeliver 1 0;               (* host frame: applies 1 *)
+   PSet 1 2;
+   PAnnounce 1;                             (* round 1, client: announces 2 *)
+   PAnnounce 0; PDeliver 1 0]%N.            (* round 1, host: echoes 1, applies 2 *)
+Definition s19_loop : list pevent :=
+  [PAnnounce 1; PDeliver 0 1;               (* client: nothing to announce, applies the echo 1 *)
+   PAnnounce 0;                             (* host: echoes 2 *)
+   PAnnounce 1; PDeliver 0 1;               (* client: announces 1, applies 2 *)
+   PAnnounce 0; PDeliver 1 0;               (* host: nothing to announce, applies 1 *)
+   PAnnounce 1;                             (* client: announces 2 *)
+   PAnnounce 0; PDeliver 1 0]%N.            (* host: echoes 1, applies 2 *)
+
+(* everything that is decidable about a prefix + cycle witness, as one boolean for vm_compute *)
+Definition cycle_check (n : nat) (pre loop : list pevent) (sent_pre sent_loop : nat) : bool :=
+  match prun (pinit n) pre with
+  | Some s =>
+      bool_decide (prun s loop = Some s) && Nat.eqb (ptotal_sent s loop) sent_loop &&
+      Nat.eqb (ptotal_sent (pinit n) pre) sent_pre &&
+      forallb (fun st => negb (pquiescentb st)) (pstates s loop)
+  | None => false
+  end.
+
+Lemma cycle_check_sound n pre loop a b :
+  cycle_check n pre loop a b = true ->
+  exists s, prun (pinit n) pre = Some s /\ prun s loop = Some s /\ ptotal_sent s loop = b /\
+            forallb (fun st => negb (pquiescentb st)) (pstates s loop) = true /\
+            (forall k, prun (pinit n) (pre ++ iter_tr k loop) = Some s /\
+                       ptotal_sent (pinit n) (pre ++ iter_tr k loop) = a + k * b).
+Proof.
+  unfold cycle_check. destruct (prun (pinit n) pre) as [s|] eqn:Hs; [|discriminate].
+  intros H. apply andb_true_iff in H as [H H4]. apply andb_true_iff in H as [H H3].
+  apply andb_true_iff in H as [H1 H2]. apply bool_decide_eq_true in H1.
+  apply Nat.eqb_eq in H2. apply Nat.eqb_eq in H3.
+  exists s. split; [reflexivity|]. split; [exact H1|]. split; [exact H2|]. split; [exact H4|].
+  intros k. destruct (cycle_forever s loop b H1 H2 k) as [Hk1 Hk2].
+  rewrite prun_app, Hs, ptotal_sent_app, Hs, Hk2, H3. auto.
+Qed.
+
+Theorem C05_pingpong_refuted :
+  exists (s : pstate),
+    prun (pinit 1) s19_prefix = Some s /\
+    prun s s19_loop = Some s /\                          (* a cycle ... *)
+    ptotal_sent s s19_loop = 4 /\                       (* ... in which messages are sent ... *)
+    forallb (fun st => negb (pquiescentb st)) (pstates s s19_loop) = true /\   (* ... never quiescent *)
+    (forall k, prun (pinit 1) (s19_prefix ++ iter_tr k s19_loop) = Some s /\
+               ptotal_sent (pinit 1) (s19_prefix ++ iter_tr k s19_loop) = 3 + k * 4).
+Proof. apply cycle_check_sound. vm_compute. reflexivity. Qed.
+Print Assumptions C05_pingpong_refuted.
+
+(* the history consists of two operations of ONE peer (no conflict between peers), the cycle is not
+   empty, both peers take turns in it (fair), and the history is in the class [known_S19] *)
+Example C05_pingpong_shape :
+  psets s19_prefix = [(1, 1); (1, 2)]%N /\ psets s19_loop = [] /\ pjoiners (s19_prefix ++ s19_loop) = [] /\
+  length s19_loop = 10 /\ known_S19 (pinit 1) s19_prefix = true.
+Proof. vm_compute. auto. Qed.
+
+(* the same two operations can also end quiescent -- with the FIRST parent everywhere, on the peer
+   that issued the second operation too: the echo of 1 overwrites 2 before 2 is announced *)
+Example C05_last_set_lost_example :
+  let tr := [PSet 1 1; PAnnounce 1; PDeliver 1 0; PAnnounce 0; PSet 1 2; PDeliver 0 1; PAnnounce 1; PDeliver 1 0]%N in
+  (fun s => pview s [0; 1]%N) <$> prun (pinit 1) tr = Some ([Some 1; Some 1]%N, true) /\
+  last_set tr = Some 2%N /\ known_S19 (pinit 1) tr = true.
+Proof. vm_compute. auto. Qed.
+
+(* ================================================================================================
+   Part 5: the invariant of an exchange towards parent u
+   [Ph u s]: every message in flight carries u, a raised flag means the peer already has u, and every
+   peer that does not have u yet is COVERED: something pending will reach it.
+     the host is covered by a client with a raised flag or a message on its way up;
+     a client c is covered by a message on its way down to c, by the host's raised flag, or by ANOTHER
+     client with a raised flag / a message on its way up (the host relays it to everybody but its sender).
+   Preserved by announce and deliver events, by re-parenting to u again (any peer), by safe joins.
+   ================================================================================================ *)
+
+Definition pend (s : pstate) (c : peer) : Prop := pchg s c = true \/ plink s c host <> [].
+
+Record Ph (u : puid) (s : pstate) : Prop := {
+  ph_msgs : forall a b m, m ∈ plink s a b -> m = u;
+  ph_flag : forall p, pchg s p = true -> ppar s p = Some u;
+  ph_host : ppar s host = Some u \/ exists c, c ∈ pconn s /\ pend s c;
+  ph_cli : forall c, c ∈ pconn s ->
+    ppar s c = Some u \/ plink s host c <> [] \/ pchg s host = true \/
+    exists c', c' ∈ pconn s /\ c' <> c /\ pend s c'
+}.
+
+Definition Agree (s : pstate) (x : option puid) : Prop := forall p, ppeers s p -> ppar s p = x.
+
+Lemma app_ne_nil_l {A} (l k : list A) : l <> [] -> l ++ k <> [].
+Proof. destruct l; simpl; congruence. Qed.
+Lemma app_ne_nil_r {A} (l k : list A) : k <> [] -> l ++ k <> [].
+Proof. destruct l; simpl; [auto|discriminate]. Qed.
+
+Lemma ph_quiescent_agree u s : pquiescent s -> Ph u s -> Agree s (Some u).
+Proof.
+  intros Hq [_ _ Hh Hc] p [->|Hp].
+  - destruct Hh as [H|(c & _ & [H|H])]; [exact H| |].
+    + rewrite (quiescent_chg _ _ Hq) in H. discriminate.
+    + rewrite (quiescent_link _ _ _ Hq) in H. contradiction.
+  - destruct (Hc p Hp) as [H|[H|[H|(c' & _ & _ & [H|H])]]]; [exact H| | | |].
+    + rewrite (quiescent_link _ _ _ Hq) in H. contradiction.
+    + rewrite (quiescent_chg _ _ Hq) in H. discriminate.
+    + rewrite (quiescent_chg _ _ Hq) in H. discriminate.
+    + rewrite (quiescent_link _ _ _ Hq) in H. contradiction.
+Qed.
+
+Lemma agree_quiescent_ph u s : pquiescent s -> Agree s (Some u) -> Ph u s.
+Proof.
+  intros Hq Ha. split.
+  - intros a b m Hm. rewrite (quiescent_link _ _ _ Hq) in Hm. inversion Hm.
+  - intros p Hp. rewrite (quiescent_chg _ _ Hq) in Hp. discriminate.
+  - left. apply Ha. left. reflexivity.
+  - intros c Hc. left. apply Ha. right. exact Hc.
+Qed.
+
+(* PSet from a quiescent state starts an exchange (whatever the peers had before) *)
+Lemma ph_set_quiescent s p u s' :
+  pwf s -> pquiescent s -> pstep s (PSet p u) = Some s' -> Ph u s'.
+Proof.
+  intros Hwf Hq Hstep. apply step_set in Hstep as (Hp & Hc & Hl & _ & Hpar & Hchg).
+  assert (Hlk : forall a b, plink s' a b = []).
+  { intros a b. unfold plink. rewrite Hl. apply (quiescent_link s a b Hq). }
+  apply (wf_exists s p Hwf) in Hp.
+  assert (Hpp : pchg s' p = true) by (rewrite Hchg; destruct (decide (p = p)); [reflexivity|contradiction]).
+  assert (Hpu : ppar s' p = Some u) by (rewrite Hpar; destruct (decide (p = p)); [reflexivity|contradiction]).
+  split.
+  - intros a b m Hm. rewrite Hlk in Hm. inversion Hm.
+  - intros q Hq'. rewrite Hchg in Hq'. rewrite Hpar. destruct (decide (q = p)); [reflexivity|].
+    rewrite (quiescent_chg _ _ Hq) in Hq'. discriminate.
+  - destruct Hp as [->|Hp]; [left; exact Hpu|]. right. exists p. rewrite Hc. split; [exact Hp|]. left. exact Hpp.
+  - intros c Hcc. rewrite Hc in Hcc. destruct (decide (c = p)) as [->|Hne]; [left; exact Hpu|].
+    destruct Hp as [->|Hp]; [right; right; left; exact Hpp|].
+    right. right. right. exists p. rewrite Hc. split; [exact Hp|]. split; [congruence|]. left. exact Hpp.
+Qed.
+
+(* re-parenting to the SAME parent during the exchange is harmless, whoever does it *)
+Lemma ph_set_same s p u s' :
+  Ph u s -> pstep s (PSet p u) = Some s' -> Ph u s'.
+Proof.
+  intros [Hm Hf Hh Hcl] Hstep. apply step_set in Hstep as (_ & Hc & Hl & _ & Hpar & Hchg).
+  assert (Hlk : forall a b, plink s' a b = plink s a b) by (intros a b; unfold plink; rewrite Hl; reflexivity).
+  assert (Hmono : forall q, pchg s q = true -> pchg s' q = true).
+  { intros q Hq. rewrite Hchg. destruct (decide (q = p)); [reflexivity|exact Hq]. }
+  assert (Hpu : forall q, ppar s q = Some u -> ppar s' q = Some u).
+  { intros q Hq. rewrite Hpar. destruct (decide (q = p)); [reflexivity|exact Hq]. }
+  assert (Hpend : forall c, pend s c -> pend s' c).
+  { intros c [H|H]; [left; apply Hmono; exact H|right; rewrite Hlk; exact H]. }
+  split.
+  - intros a b m. rewrite Hlk. apply Hm.
+  - intros q Hq. rewrite Hchg in Hq. rewrite Hpar. destruct (decide (q = p)); [reflexivity|apply Hf; exact Hq].
+  - destruct Hh as [H|(c & Hcc & H)]; [left; apply Hpu; exact H|].
+    right. exists c. rewrite Hc. split; [exact Hcc|apply Hpend; exact H].
+  - intros c Hcc. rewrite Hc in Hcc. destruct (Hcl c Hcc) as [H|[H|[H|(c' & Hc' & Hne & H)]]].
+    + left. apply Hpu. exact H.
+    + right. left. rewrite Hlk. exact H.
+    + right. right. left. apply Hmono. exact H.
+    + right. right. right. exists c'. rewrite Hc. split; [exact Hc'|]. split; [exact Hne|apply Hpend; exact H].
+Qed.
+
+Lemma ph_announce u s p s' :
+  pwf s -> Ph u s -> pstep s (PAnnounce p) = Some s' -> Ph u s'.
+Proof.
+  intros Hwf HP Hstep. pose proof HP as [Hm Hf Hh Hcl].
+  apply step_announce in Hstep as (Hp & [(_ & ->)|(Hpc & Hc & _ & Hpar & Hchg & Hl)]); [exact HP| |apply wf_nodup; exact Hwf].
+  apply (wf_exists s p Hwf) in Hp.
+  pose proof (Hf p Hpc) as Hpu. rewrite Hpu in Hl. simpl in Hl.
+  assert (Hlmono : forall a b, plink s a b <> [] -> plink s' a b <> []).
+  { intros a b H. rewrite Hl. destruct (decide _); [apply app_ne_nil_l|]; exact H. }
+  assert (Hpend : forall c, c <> host -> pend s c -> pend s' c).
+  { intros c Hne [H|H]; [|right; apply Hlmono; exact H].
+    destruct (decide (c = p)) as [->|Hcp].
+    - right. rewrite Hl. destruct (decide (p = p /\ host ∈ pdsts s p)) as [_|Hn]; [apply app_ne_nil_r; discriminate|].
+      exfalso. apply Hn. split; [reflexivity|]. unfold pdsts.
+      destruct (p =? host)%N eqn:Hph; [apply N.eqb_eq in Hph; contradiction|]. apply elem_of_list_singleton. reflexivity.
+    - left. rewrite Hchg. destruct (decide (c = p)); [contradiction|exact H]. }
+  split.
+  - intros a b m. rewrite Hl. destruct (decide _); [|apply Hm].
+    intros H. apply elem_of_app in H as [H|H]; [eapply Hm; exact H|]. apply elem_of_list_singleton in H. exact H.
+  - intros q Hq. rewrite Hchg in Hq. rewrite Hpar. destruct (decide (q = p)); [discriminate|apply Hf; exact Hq].
+  - destruct Hh as [H|(c & Hcc & H)]; [left; rewrite Hpar; exact H|].
+    right. exists c. rewrite Hc. split; [exact Hcc|]. apply Hpend; [|exact H]. eapply wf_conn_ne; eauto.
+  - intros c Hcc. rewrite Hc in Hcc. destruct (Hcl c Hcc) as [H|[H|[H|(c' & Hc' & Hne & H)]]].
+    + left. rewrite Hpar. exact H.
+    + right. left. apply Hlmono. exact H.
+    + destruct (decide (p = host)) as [->|Hph].
+      * right. left. rewrite Hl. destruct (decide (host = host /\ c ∈ pdsts s host)) as [_|Hn]; [apply app_ne_nil_r; discriminate|].
+        exfalso. apply Hn. split; [reflexivity|exact Hcc].
+      * right. right. left. rewrite Hchg. destruct (decide (host = p)); [congruence|exact H].
+    + right. right. right. exists c'. rewrite Hc. split; [exact Hc'|]. split; [exact Hne|].
+      apply Hpend; [|exact H]. eapply wf_conn_ne; eauto.
+Qed.
+
+Lemma ph_deliver u s src dst s' :
+  pwf s -> Ph u s -> pstep s (PDeliver src dst) = Some s' -> Ph u s'.
+Proof.
+  intros Hwf HP Hstep. pose proof HP as [Hm Hf Hh Hcl].
+  apply step_deliver in Hstep as (m & rest & Hl0 & Hd & Hc & _ & Hpar & Hchg & Hl); [|apply wf_nodup; exact Hwf].
+  assert (m = u) as -> by (apply (Hm src dst); rewrite Hl0; left).
+  assert (Hends : (src = host /\ dst ∈ pconn s) \/ (dst = host /\ src ∈ pconn s)).
+  { apply (wf_link s src dst Hwf). rewrite Hl0. discriminate. }
+  assert (Hcmono : forall q, pchg s q = true -> pchg s' q = true).
+  { intros q Hq. rewrite Hchg. destruct (decide (q = dst)) as [->|_]; [rewrite Hq; reflexivity|exact Hq]. }
+  assert (Hpu : forall q, ppar s q = Some u -> ppar s' q = Some u).
+  { intros q Hq. rewrite Hpar. destruct (decide (q = dst)); [reflexivity|exact Hq]. }
+  assert (Hlother : forall a b, (a, b) <> (src, dst) -> plink s a b <> [] -> plink s' a b <> []).
+  { intros a b Hne H. rewrite Hl. destruct (decide ((a, b) = (src, dst))); [contradiction|]. apply app_ne_nil_l. exact H. }
+  assert (Hpend : forall c, c <> src -> pend s c -> pend s' c).
+  { intros c Hne [H|H]; [left; apply Hcmono; exact H|]. right. apply Hlother; [congruence|exact H]. }
+  split.
+  - intros a b x. rewrite Hl. intros H. apply elem_of_app in H as [H|H].
+    + destruct (decide ((a, b) = (src, dst))) as [Heq|_]; [|eapply Hm; exact H].
+      apply (Hm src dst). rewrite Hl0. right. exact H.
+    + destruct (decide _); [|inversion H]. apply elem_of_list_singleton in H. exact H.
+  - intros q Hq. rewrite Hpar. destruct (decide (q = dst)) as [->|Hne]; [reflexivity|].
+    apply Hf. rewrite Hchg in Hq. destruct (decide (q = dst)); [contradiction|exact Hq].
+  - destruct Hends as [[-> Hdc]|[-> Hsc]].
+    + (* down to a client: the host and everything travelling up are untouched *)
+      destruct Hh as [H|(c & Hcc & H)]; [left; apply Hpu; exact H|].
+      right. exists c. rewrite Hc. split; [exact Hcc|]. apply Hpend; [|exact H]. eapply wf_conn_ne; eauto.
+    + left. rewrite Hpar. destruct (decide (host = host)); [reflexivity|contradiction].
+  - intros c Hcc. rewrite Hc in Hcc. pose proof (wf_conn_ne s c Hwf Hcc) as Hch.
+    destruct Hends as [[-> Hdc]|[-> Hsc]].
+    + (* host -> dst *)
+      destruct (decide (c = dst)) as [->|Hne].
+      { left. rewrite Hpar. destruct (decide (dst = dst)); [reflexivity|contradiction]. }
+      destruct (Hcl c Hcc) as [H|[H|[H|(c' & Hc' & Hne' & H)]]].
+      * left. apply Hpu. exact H.
+      * right. left. apply Hlother; [congruence|exact H].
+      * right. right. left. apply Hcmono. exact H.
+      * right. right. right. exists c'. rewrite Hc. split; [exact Hc'|]. split; [exact Hne'|].
+        apply Hpend; [|exact H]. eapply wf_conn_ne; eauto.
+    + (* src -> host: relayed to every client but src *)
+      destruct (decide (c = src)) as [->|Hne].
+      * destruct (Hcl src Hcc) as [H|[H|[H|(c' & Hc' & Hne' & H)]]].
+        -- left. apply Hpu. exact H.
+        -- right. left. apply Hlother; [congruence|exact H].
+        -- right. right. left. apply Hcmono. exact H.
+        -- right. right. right. exists c'. rewrite Hc. split; [exact Hc'|]. split; [exact Hne'|].
+           apply Hpend; [exact Hne'|exact H].
+      * right. left. rewrite Hl. apply app_ne_nil_r.
+        destruct (decide (host = host /\ host = host /\ c ∈ pothers src (pconn s))) as [_|Hn]; [discriminate|].
+        exfalso. apply Hn. split; [reflexivity|]. split; [reflexivity|]. apply elem_of_pothers. auto.
+Qed.
+
+(* a join while the host has no parent yet, or already has u *)
+Lemma ph_join u s c s' :
+  pwf s -> Ph u s -> ppar s host = None \/ ppar s host = Some u ->
+  pstep s (PJoin c) = Some s' -> Ph u s'.
+Proof.
+  intros Hwf HP Hsafe Hstep. pose proof HP as [Hm Hf Hh Hcl].
+  pose proof (join_par s c s') as Hpar. pose proof (join_chg s c s') as Hchg.
+  specialize (fun q => Hpar q Hstep). specialize (fun q => Hchg q Hstep).
+  apply step_join in Hstep as (Hch & Hcn & Hnone & Hc & _ & _ & Hl).
+  assert (Hlmono : forall a b, plink s a b <> [] -> plink s' a b <> []).
+  { intros a b H. rewrite Hl. destruct (decide _) as [Heq|_]; [|exact H]. inversion Heq; subst. apply app_ne_nil_l. exact H. }
+  assert (Hpend : forall c', pend s c' -> pend s' c').
+  { intros c' [H|H]; [left; rewrite Hchg; exact H|right; apply Hlmono; exact H]. }
+  assert (Hcabs : ~ ppeers s c).
+  { intros H. apply (wf_exists s c Hwf) in H. rewrite Hnone in H. destruct H; discriminate. }
+  split.
+  - intros a b m. rewrite Hl. destruct (decide _) as [Heq|_]; [|apply Hm].
+    intros H. apply elem_of_app in H as [H|H]; [eapply Hm; exact H|].
+    destruct Hsafe as [Hs|Hs]; rewrite Hs in H; simpl in H; [inversion H|]. apply elem_of_list_singleton in H. exact H.
+  - intros q. rewrite Hchg, Hpar. apply Hf.
+  - rewrite Hpar. destruct Hh as [H|(c' & Hc' & H)]; [left; exact H|].
+    right. exists c'. rewrite Hc. split; [apply elem_of_app; left; exact Hc'|apply Hpend; exact H].
+  - intros c0 Hc0. rewrite Hc in Hc0. apply elem_of_app in Hc0 as [Hc0|Hc0].
+    + destruct (Hcl c0 Hc0) as [H|[H|[H|(c' & Hc' & Hne & H)]]].
+      * left. rewrite Hpar. exact H.
+      * right. left. apply Hlmono. exact H.
+      * right. right. left. rewrite Hchg. exact H.
+      * right. right. right. exists c'. rewrite Hc. split; [apply elem_of_app; left; exact Hc'|].
+        split; [exact Hne|apply Hpend; exact H].
+    + apply elem_of_list_singleton in Hc0. subst c0.
+      destruct Hsafe as [Hs|Hs].
+      * (* no snapshot: the host itself is still waiting for u, from a client that is not c *)
+        destruct Hh as [H|(c' & Hc' & H)]; [congruence|].
+        right. right. right. exists c'. rewrite Hc. split; [apply elem_of_app; left; exact Hc'|].
+        split; [|apply Hpend; exact H]. intros ->. apply Hcabs. right. exact Hc'.
+      * right. left. rewrite Hl. destruct (decide ((host, c) = (host, c))) as [_|Hn]; [|contradiction].
+        rewrite Hs. apply app_ne_nil_r. discriminate.
+Qed.
+
+(* ================================================================================================
+   Part 6: termination measure and traffic potential of an exchange
+   ================================================================================================ *)
+
+Lemma pcnt1_flag_down u s s' p :
+  ppar s' p = ppar s p -> pchg s p = true -> pchg s' p = false -> pcnt1 u s' p + 1 = pcnt1 u s p.
+Proof. intros Hp H1 H2. unfold pcnt1. rewrite Hp, H1, H2. lia. Qed.
+
+Lemma pcnt1_same u s s' p : ppar s' p = ppar s p -> pchg s' p = pchg s p -> pcnt1 u s' p = pcnt1 u s p.
+Proof. intros Hp Hc. unfold pcnt1. rewrite Hp, Hc. reflexivity. Qed.
+
+Lemma pcnt1_apply u s s' p :
+  ppar s' p = Some u -> pchg s' p = pchg s p || negb (bool_decide (ppar s p = Some u)) ->
+  pcnt1 u s' p <= pcnt1 u s p.
+Proof.
+  intros Hp Hc. unfold pcnt1. rewrite Hp, Hc. rewrite bool_decide_eq_true_2 by reflexivity.
+  destruct (bool_decide (ppar s p = Some u)); destruct (pchg s p); simpl; lia.
+Qed.
+
+(* what one effective announce / deliver event does to the three counters *)
+Lemma count_announce_host u s s' :
+  pwf s -> Ph u s -> pchg s host = true -> pstep s (PAnnounce host) = Some s' ->
+  pconn s' = pconn s /\ pcnt u s' + 1 = pcnt u s /\ pups s' = pups s /\ pdowns s' = pdowns s + length (pconn s).
+Proof.
+  intros Hwf HP Hflag Hstep. pose proof (ph_flag u s HP host Hflag) as Hpu.
+  apply step_announce in Hstep as (_ & [(Hn & _)|(_ & Hc & _ & Hpar & Hchg & Hl)]); [congruence| |apply wf_nodup; exact Hwf].
+  rewrite Hpu in Hl. simpl in Hl. split; [exact Hc|].
+  unfold pcnt, pups, pdowns. rewrite Hc. split; [|split].
+  - rewrite (sumf_ext (pcnt1 u s) (pcnt1 u s')).
+    + rewrite <- (pcnt1_flag_down u s s' host); [lia|apply Hpar|exact Hflag|].
+      rewrite Hchg. destruct (decide (host = host)); [reflexivity|contradiction].
+    + intros c Hcc. apply pcnt1_same; [apply Hpar|]. rewrite Hchg.
+      destruct (decide (c = host)) as [->|_]; [|reflexivity]. exfalso. eapply wf_host; eauto.
+  - apply sumf_ext. intros c Hcc. rewrite Hl. destruct (decide (c = host /\ _)) as [[-> _]|_]; [|reflexivity].
+    exfalso. eapply wf_host; eauto.
+  - apply sumf_all1. intros c Hcc. rewrite Hl.
+    destruct (decide (host = host /\ c ∈ pdsts s host)) as [_|Hn]; [rewrite app_length; reflexivity|].
+    exfalso. apply Hn. split; [reflexivity|exact Hcc].
+Qed.
+
+Lemma count_announce_client u s p s' :
+  pwf s -> Ph u s -> p ∈ pconn s -> pchg s p = true -> pstep s (PAnnounce p) = Some s' ->
+  pconn s' = pconn s /\ pcnt u s' + 1 = pcnt u s /\ pups s' = pups s + 1 /\ pdowns s' = pdowns s.
+Proof.
+  intros Hwf HP Hpc Hflag Hstep. pose proof (ph_flag u s HP p Hflag) as Hpu.
+  pose proof (wf_conn_ne s p Hwf Hpc) as Hph. pose proof (wf_nodup s Hwf) as Hnd.
+  apply step_announce in Hstep as (_ & [(Hn & _)|(_ & Hc & _ & Hpar & Hchg & Hl)]); [congruence| |exact Hnd].
+  rewrite Hpu in Hl. simpl in Hl. split; [exact Hc|].
+  assert (Hdst : pdsts s p = [host]).
+  { unfold pdsts. destruct (p =? host)%N eqn:E; [apply N.eqb_eq in E; contradiction|reflexivity]. }
+  unfold pcnt, pups, pdowns. rewrite Hc. split; [|split].
+  - rewrite (pcnt1_same u s s' host); [|apply Hpar|rewrite Hchg; destruct (decide (host = p)); [congruence|reflexivity]].
+    pose proof (sumf_one (pcnt1 u s) (pcnt1 u s') (pconn s) p Hnd Hpc) as H. lapply H.
+    + intros H'. rewrite <- (pcnt1_flag_down u s s' p) in H'; [lia|apply Hpar|exact Hflag|].
+      rewrite Hchg. destruct (decide (p = p)); [reflexivity|contradiction].
+    + intros c' _ Hne. apply pcnt1_same; [apply Hpar|]. rewrite Hchg. destruct (decide (c' = p)); [contradiction|reflexivity].
+  - pose proof (sumf_one (fun c => length (plink s c host)) (fun c => length (plink s' c host)) (pconn s) p Hnd Hpc) as H.
+    lapply H.
+    + intros H'. rewrite (Hl p host) in H'. rewrite Hdst in H'.
+      destruct (decide (p = p /\ host ∈ [host])) as [_|Hn]; [rewrite app_length in H'; simpl in H'; lia|].
+      exfalso. apply Hn. split; [reflexivity|apply elem_of_list_singleton; reflexivity].
+    + intros c' _ Hne. simpl. rewrite Hl. destruct (decide (c' = p /\ _)) as [[-> _]|_]; [contradiction|reflexivity].
+  - apply sumf_ext. intros c Hcc. rewrite Hl. destruct (decide (host = p /\ _)) as [[E _]|_]; [congruence|reflexivity].
+Qed.
+
+Lemma count_deliver_up u s src s' :
+  pwf s -> Ph u s -> src ∈ pconn s -> pstep s (PDeliver src host) = Some s' ->
+  pconn s' = pconn s /\ pcnt u s' <= pcnt u s /\ pups s' + 1 = pups s /\ pdowns s' + 1 = pdowns s + length (pconn s).
+Proof.
+  intros Hwf HP Hsc Hstep. pose proof (wf_conn_ne s src Hwf Hsc) as Hsh. pose proof (wf_nodup s Hwf) as Hnd.
+  apply step_deliver in Hstep as (m & rest & Hl0 & _ & Hc & _ & Hpar & Hchg & Hl); [|exact Hnd].
+  assert (m = u) as -> by (apply (ph_msgs u s HP src host); rewrite Hl0; left).
+  split; [exact Hc|]. unfold pcnt, pups, pdowns. rewrite Hc. split; [|split].
+  - rewrite (sumf_ext (pcnt1 u s) (pcnt1 u s')).
+    + assert (pcnt1 u s' host <= pcnt1 u s host); [|lia]. apply pcnt1_apply.
+      * rewrite Hpar. destruct (decide (host = host)); [reflexivity|contradiction].
+      * rewrite Hchg. destruct (decide (host = host)); [reflexivity|contradiction].
+    + intros c Hcc. pose proof (wf_conn_ne s c Hwf Hcc) as Hch. apply pcnt1_same.
+      * rewrite Hpar. destruct (decide (c = host)); [contradiction|reflexivity].
+      * rewrite Hchg. destruct (decide (c = host)); [contradiction|reflexivity].
+  - pose proof (sumf_one (fun c => length (plink s c host)) (fun c => length (plink s' c host)) (pconn s) src Hnd Hsc) as H.
+    lapply H.
+    + intros H'. rewrite (Hl src host), Hl0 in H'.
+      destruct (decide ((src, host) = (src, host))) as [_|Hn]; [|contradiction].
+      destruct (decide (host = host /\ src = host /\ _)) as [(_ & E & _)|_]; [contradiction|].
+      rewrite app_nil_r in H'. simpl in H'. lia.
+    + intros c' Hc' Hne. simpl. rewrite Hl.
+      destruct (decide ((c', host) = (src, host))) as [E|_]; [congruence|].
+      destruct (decide (host = host /\ c' = host /\ _)) as [(_ & E & _)|_]; [|rewrite app_nil_r; reflexivity].
+      exfalso. subst c'. eapply wf_host; eauto.
+  - apply (sumf_others _ _ _ src Hnd Hsc).
+    + rewrite Hl. destruct (decide ((host, src) = (src, host))) as [E|_]; [congruence|].
+      destruct (decide (host = host /\ host = host /\ src ∈ pothers src (pconn s))) as [(_ & _ & E)|_]; [|rewrite app_nil_r; reflexivity].
+      apply elem_of_pothers in E. tauto.
+    + intros c' Hc' Hne. rewrite Hl. destruct (decide ((host, c') = (src, host))) as [E|_]; [congruence|].
+      destruct (decide (host = host /\ host = host /\ c' ∈ pothers src (pconn s))) as [_|Hn]; [rewrite app_length; reflexivity|].
+      exfalso. apply Hn. split; [reflexivity|]. split; [reflexivity|]. apply elem_of_pothers. auto.
+Qed.
+
+Lemma count_deliver_down u s dst s' :
+  pwf s -> Ph u s -> dst ∈ pconn s -> pstep s (PDeliver host dst) = Some s' ->
+  pconn s' = pconn s /\ pcnt u s' <= pcnt u s /\ pups s' = pups s /\ pdowns s' + 1 = pdowns s.
+Proof.
+  intros Hwf HP Hdc Hstep. pose proof (wf_conn_ne s dst Hwf Hdc) as Hdh. pose proof (wf_nodup s Hwf) as Hnd.
+  apply step_deliver in Hstep as (m & rest & Hl0 & _ & Hc & _ & Hpar & Hchg & Hl); [|exact Hnd].
+  assert (m = u) as -> by (apply (ph_msgs u s HP host dst); rewrite Hl0; left).
+  assert (Hnorelay : forall a b, plink s' a b = if decide ((a, b) = (host, dst)) then rest else plink s a b).
+  { intros a b. rewrite Hl. destruct (decide (dst = host /\ _)) as [[E _]|_]; [contradiction|]. apply app_nil_r. }
+  split; [exact Hc|]. unfold pcnt, pups, pdowns. rewrite Hc. split; [|split].
+  - rewrite (pcnt1_same u s s' host).
+    + pose proof (sumf_one (pcnt1 u s) (pcnt1 u s') (pconn s) dst Hnd Hdc) as H. lapply H.
+      * intros H'. assert (pcnt1 u s' dst <= pcnt1 u s dst); [|lia]. apply pcnt1_apply.
+        -- rewrite Hpar. destruct (decide (dst = dst)); [reflexivity|contradiction].
+        -- rewrite Hchg. destruct (decide (dst = dst)); [reflexivity|contradiction].
+      * intros c' _ Hne. apply pcnt1_same.
+        -- rewrite Hpar. destruct (decide (c' = dst)); [contradiction|reflexivity].
+        -- rewrite Hchg. destruct (decide (c' = dst)); [contradiction|reflexivity].
+    + rewrite Hpar. destruct (decide (host = dst)); [congruence|reflexivity].
+    + rewrite Hchg. destruct (decide (host = dst)); [congruence|reflexivity].
+  - apply sumf_ext. intros c Hcc. rewrite Hnorelay. destruct (decide ((c, host) = (host, dst))) as [E|_]; [|reflexivity].
+    congruence.
+  - pose proof (sumf_one (fun c => length (plink s host c)) (fun c => length (plink s' host c)) (pconn s) dst Hnd Hdc) as H.
+    lapply H.
+    + intros H'. rewrite (Hnorelay host dst), Hl0 in H'.
+      destruct (decide ((host, dst) = (host, dst))) as [_|Hn]; [simpl in H'; lia|contradiction].
+    + intros c' _ Hne. simpl. rewrite Hnorelay. destruct (decide ((host, c') = (host, dst))) as [E|_]; [congruence|reflexivity].
+Qed.
+
+(* one announce / deliver event of an exchange: a no-op, or the measure strictly decreases and the
+   messages it sends are paid for by the potential *)
+Lemma drain_step_measure u s e s' :
+  pwf s -> Ph u s -> drain_event e -> pstep s e = Some s' ->
+  (effective s e = false /\ s' = s /\ psent_by s e = 0) \/
+  (effective s e = true /\ pmeasure u s' < pmeasure u s /\ psent_by s e + ppotential u s' <= ppotential u s).
+Proof.
+  intros Hwf HP He Hstep. pose proof (wf_nodup s Hwf) as Hnd.
+  destruct e as [p x|p|src dst|c]; simpl in He; try contradiction.
+  - (* announce *)
+    destruct (pchg s p) eqn:Hflag.
+    + right. split; [exact Hflag|].
+      assert (Hp : ppeers s p).
+      { apply (wf_exists s p Hwf). unfold pchg, pget in Hflag. destruct (pp s !! p); [eauto|discriminate]. }
+      pose proof (ph_flag u s HP p Hflag) as Hpu.
+      unfold pmeasure, ppotential, psent_by. rewrite Hflag, Hpu. simpl length.
+      destruct Hp as [->|Hp].
+      * destruct (count_announce_host u s s' Hwf HP Hflag Hstep) as (Hc & H1 & H2 & H3).
+        rewrite Hc, H2, H3. unfold pdsts. simpl. split; nia.
+      * destruct (count_announce_client u s p s' Hwf HP Hp Hflag Hstep) as (Hc & H1 & H2 & H3).
+        rewrite Hc, H2, H3. unfold pdsts.
+        destruct (p =? host)%N eqn:E; [apply N.eqb_eq in E; subst p; exfalso; eapply wf_host; eauto|].
+        assert (1 <= length (pconn s)) by (destruct (pconn s); [inversion Hp|simpl; lia]).
+        simpl length. split; nia.
+    + left. apply step_announce in Hstep as (_ & [(_ & ->)|(Hn & _)]); [|congruence|exact Hnd].
+      split; [exact Hflag|]. split; [reflexivity|]. unfold psent_by. rewrite Hflag. reflexivity.
+  - (* deliver *)
+    right. split; [reflexivity|].
+    assert (Hne : plink s src dst <> []).
+    { simpl in Hstep. destruct (plink s src dst); [discriminate|discriminate]. }
+    unfold pmeasure, ppotential, psent_by. destruct (plink s src dst) as [|m rest] eqn:Hl0; [contradiction|].
+    destruct (wf_link s src dst Hwf) as [[-> Hdc]|[-> Hsc]]; [rewrite Hl0; discriminate| |].
+    + destruct (count_deliver_down u s dst s' Hwf HP Hdc Hstep) as (Hc & H1 & H2 & H3).
+      rewrite Hc, H2.
+      destruct (dst =? host)%N eqn:E; [apply N.eqb_eq in E; subst dst; exfalso; eapply wf_host; eauto|].
+      split; nia.
+    + destruct (count_deliver_up u s src s' Hwf HP Hsc Hstep) as (Hc & H1 & H2 & H3).
+      rewrite Hc. pose proof (length_pothers src (pconn s) Hnd Hsc) as Hlen.
+      simpl. split; nia.
+Qed.
+
+Lemma drain_step_ph u s e s' :
+  pwf s -> Ph u s -> drain_event e -> pstep s e = Some s' -> Ph u s'.
+Proof.
+  intros Hwf HP He Hstep. destruct e as [p x|p|src dst|c]; simpl in He; try contradiction.
+  - eapply ph_announce; eauto.
+  - eapply ph_deliver; eauto.
+Qed.
+
+Lemma drain_step_conn s e s' : drain_event e -> pstep s e = Some s' -> pconn s' = pconn s.
+Proof.
+  intros He Hstep. destruct e as [p x|p|src dst|c]; simpl in He; try contradiction; simpl in Hstep.
+  - destruct (pp s !! p) as [y|]; [|discriminate]. destruct (changed y); injection Hstep as <-; reflexivity.
+  - destruct (plink s src dst); [discriminate|]. destruct (pp s !! dst); [|discriminate].
+    injection Hstep as <-. reflexivity.
+Qed.
+
+Lemma drain_run u tr : forall s s',
+  pwf s -> Ph u s -> Forall drain_event tr -> prun s tr = Some s' ->
+  pwf s' /\ Ph u s' /\ pconn s' = pconn s /\
+  peffective_count s tr + pmeasure u s' <= pmeasure u s /\
+  ptotal_sent s tr + ppotential u s' <= ppotential u s.
+Proof.
+  induction tr as [|e tr IH]; intros s s' Hwf HP Hd Hrun; simpl in *.
+  - injection Hrun as <-. split; [exact Hwf|]. split; [exact HP|]. split; [reflexivity|]. split; lia.
+  - destruct (pstep s e) as [s1|] eqn:Hs; [|discriminate].
+    apply Forall_cons in Hd as [He Hd].
+    pose proof (step_wf s e s1 Hwf Hs) as Hwf1. pose proof (drain_step_ph u s e s1 Hwf HP He Hs) as HP1.
+    destruct (IH s1 s' Hwf1 HP1 Hd Hrun) as (Hwf' & HP' & Hc' & Hm' & Hs').
+    split; [exact Hwf'|]. split; [exact HP'|]. split; [rewrite Hc'; eapply drain_step_conn; eauto|].
+    destruct (drain_step_measure u s e s1 Hwf HP He Hs) as [(Heff & -> & Hz)|(Heff & Hlt & Hpot)]; rewrite Heff.
+    + rewrite Hz. split; simpl; assumption.
+    + split; lia.
+Qed.
+
+(* progress: a state that is not quiescent has an enabled effective announce / deliver event *)
+Lemma drain_progress s :
+  pwf s -> ~ pquiescent s -> exists e s', drain_event e /\ effective s e = true /\ pstep s e = Some s'.
+Proof.
+  intros Hwf Hn. apply not_quiescent in Hn as [(p & Hp)|(a & b & Hl)].
+  - exists (PAnnounce p). simpl. unfold pchg, pget in Hp. destruct (pp s !! p) as [x|] eqn:Hx; [|discriminate].
+    simpl in Hp. rewrite Hp. eexists. split; [exact I|]. split; [|reflexivity].
+    unfold pchg. rewrite (pget_exists _ _ _ Hx). exact Hp.
+  - exists (PDeliver a b). simpl. destruct (plink s a b) as [|m rest] eqn:Hl0; [contradiction|].
+    assert (Hb : is_Some (pp s !! b)).
+    { apply (wf_exists s b Hwf). destruct (wf_link s a b Hwf) as [[_ H]|[-> _]]; [rewrite Hl0; discriminate|right; exact H|left; reflexivity]. }
+    destruct Hb as [x Hx]. rewrite Hx. eexists. split; [exact I|]. split; reflexivity.
+Qed.
+
+(* every exchange can be driven to quiescence ... *)
+Lemma drain_terminates u : forall k s,
+  pmeasure u s <= k -> pwf s -> Ph u s ->
+  exists tr s', Forall drain_event tr /\ prun s tr = Some s' /\ pquiescent s'.
+Proof.
+  induction k as [|k IH]; intros s Hk Hwf HP.
+  - destruct (decide (pquiescent s)) as [Hq|Hn]; [exists [], s; auto|].
+    destruct (drain_progress s Hwf Hn) as (e & s1 & He & Heff & Hs).
+    destruct (drain_step_measure u s e s1 Hwf HP He Hs) as [(Hf & _)|(_ & Hlt & _)]; [congruence|lia].
+  - destruct (decide (pquiescent s)) as [Hq|Hn]; [exists [], s; auto|].
+    destruct (drain_progress s Hwf Hn) as (e & s1 & He & Heff & Hs).
+    destruct (drain_step_measure u s e s1 Hwf HP He Hs) as [(Hf & _)|(_ & Hlt & _)]; [congruence|].
+    destruct (IH s1) as (tr & s' & Hd & Hrun & Hq); [lia|eapply step_wf; eauto|eapply drain_step_ph; eauto|].
+    exists (e :: tr), s'. split; [constructor; assumption|]. split; [simpl; rewrite Hs; exact Hrun|exact Hq].
+Qed.
+
+(* ... and no exchange goes on for ever: there is no infinite sequence of effective events *)
+Theorem no_infinite_exchange u (st : nat -> pstate) (ev : nat -> pevent) :
+  pwf (st 0) -> Ph u (st 0) ->
+  (forall i, drain_event (ev i) /\ effective (st i) (ev i) = true /\ pstep (st i) (ev i) = Some (st (S i))) ->
+  False.
+Proof.
+  intros Hwf HP Hinf.
+  assert (H : forall i, pwf (st i) /\ Ph u (st i) /\ pmeasure u (st i) + i <= pmeasure u (st 0)).
+  { induction i as [|i (Hwi & HPi & Hmi)]; [split; [exact Hwf|]; split; [exact HP|lia]|].
+    destruct (Hinf i) as (He & Heff & Hs).
+    split; [eapply step_wf; eauto|]. split; [eapply drain_step_ph; eauto|].
+    destruct (drain_step_measure u (st i) (ev i) (st (S i)) Hwi HPi He Hs) as [(Hf & _)|(_ & Hlt & _)]; [congruence|lia]. }
+  destruct (H (S (pmeasure u (st 0)))) as (_ & _ & Hbad). lia.
+Qed.
+Print Assumptions no_infinite_exchange.
+
+(* ================================================================================================
+   Part 7: one operation from a quiescent state (C05, single operation; its part of C09)
+   ================================================================================================ *)
+
+Lemma set_quiescent_counts s w u s1 :
+  pwf s -> pquiescent s -> pstep s (PSet w u) = Some s1 ->
+  pconn s1 = pconn s /\ pcnt u s1 <= length (pconn s) + 1 /\ pups s1 = 0 /\ pdowns s1 = 0.
+Proof.
+  intros Hwf Hq Hstep. apply step_set in Hstep as (_ & Hc & Hl & _ & Hpar & Hchg).
+  assert (Hlk : forall a b, plink s1 a b = []).
+  { intros a b. unfold plink. rewrite Hl. apply (quiescent_link s a b Hq). }
+  assert (H1 : forall q, pcnt1 u s1 q <= 1).
+  { intros q. unfold pcnt1. rewrite Hpar, Hchg. destruct (decide (q = w)).
+    - rewrite bool_decide_eq_true_2 by reflexivity. lia.
+    - rewrite (quiescent_chg _ _ Hq). destruct (bool_decide _); lia. }
+  split; [exact Hc|]. unfold pcnt, pups, pdowns. rewrite Hc. split; [|split].
+  - pose proof (H1 host). pose proof (sumf_bound (pcnt1 u s1) (pconn s) 1 (fun c _ => H1 c)). lia.
+  - apply sumf_zero. intros c _. rewrite Hlk. reflexivity.
+  - apply sumf_zero. intros c _. rewrite Hlk. reflexivity.
+Qed.
+
+(* the exact worst case: n clients, the operation costs at most n*(n+1) messages
+   (originator -> host -> others: n; the host's own announcement: n; each of the n-1 other clients
+   echoes once (n-1) -- with the originator's announcement that is n messages to the host, each
+   relayed to the n-1 other clients) -- less than the square of the number of peers, (n+1)^2 *)
+Theorem parent_messages_bounded s0 w u s1 tr s' :
+  pwf s0 -> pquiescent s0 -> pstep s0 (PSet w u) = Some s1 ->
+  Forall drain_event tr -> prun s1 tr = Some s' ->
+  ptotal_sent s1 tr <= length (pconn s0) * (length (pconn s0) + 1).
+Proof.
+  intros Hwf Hq Hset Hd Hrun.
+  destruct (set_quiescent_counts s0 w u s1 Hwf Hq Hset) as (Hc & Hcnt & Hu & Hdn).
+  pose proof (step_wf _ _ _ Hwf Hset) as Hwf1. pose proof (ph_set_quiescent _ _ _ _ Hwf Hq Hset) as HP1.
+  destruct (drain_run u tr s1 s' Hwf1 HP1 Hd Hrun) as (_ & _ & _ & _ & Hs).
+  unfold ppotential in Hs at 2. rewrite Hc, Hu in Hs. nia.
+Qed.
+Print Assumptions parent_messages_bounded.
+
+(* the bound is reached *)
+Example parent_messages_bound_tight :
+  ptotal_sent (pinit 2) ex_single = length (pconn (pinit 2)) * (length (pconn (pinit 2)) + 1).
+Proof. vm_compute. reflexivity. Qed.
+
+Theorem C05_single_operation_converges s0 w u s1 tr s' :
+  pwf s0 -> pquiescent s0 -> pstep s0 (PSet w u) = Some s1 ->
+  Forall drain_event tr -> prun s1 tr = Some s' ->
+  let n := length (pconn s0) in
+  (* whenever the run is quiescent, every peer has the new parent *)
+  (pquiescent s' -> Agree s' (Some u)) /\
+  (* at most (n+1)^2 events of the run do anything at all; at most n*(n+1) messages are sent *)
+  peffective_count s1 tr <= (n + 1) * (n + 1) /\
+  ptotal_sent s1 tr <= n * (n + 1) /\
+  (* the measure: as long as the state is not quiescent something can happen, and whatever
+     happens (any effective announce / deliver event of any peer) strictly decreases it *)
+  (~ pquiescent s' -> exists e s'', drain_event e /\ effective s' e = true /\ pstep s' e = Some s'') /\
+  (forall e s'', drain_event e -> effective s' e = true -> pstep s' e = Some s'' -> pmeasure u s'' < pmeasure u s') /\
+  (* hence every maximal run is finite and ends quiescent: the run can be completed ... *)
+  (exists tr2 s'', Forall drain_event tr2 /\ prun s' tr2 = Some s'' /\ pquiescent s'' /\ Agree s'' (Some u)) /\
+  (* ... and cannot be continued for ever *)
+  (forall (st : nat -> pstate) (ev : nat -> pevent), st 0 = s' ->
+     (forall i, drain_event (ev i) /\ effective (st i) (ev i) = true /\ pstep (st i) (ev i) = Some (st (S i))) -> False).
+Proof.
+  intros Hwf Hq Hset Hd Hrun n.
+  destruct (set_quiescent_counts s0 w u s1 Hwf Hq Hset) as (Hc & Hcnt & Hu & Hdn).
+  pose proof (step_wf _ _ _ Hwf Hset) as Hwf1. pose proof (ph_set_quiescent _ _ _ _ Hwf Hq Hset) as HP1.
+  destruct (drain_run u tr s1 s' Hwf1 HP1 Hd Hrun) as (Hwf' & HP' & Hc' & Hm & Hs).
+  split; [intros Hq'; apply ph_quiescent_agree; assumption|].
+  split; [unfold pmeasure in Hm at 2; rewrite Hc, Hu, Hdn in Hm; subst n; nia|].
+  split; [eapply parent_messages_bounded; eauto|].
+  split; [intros Hn; apply drain_progress; assumption|].
+  split.
+  { intros e s'' He Heff Hstep.
+    destruct (drain_step_measure u s' e s'' Hwf' HP' He Hstep) as [(Hf & _)|(_ & Hlt & _)]; [congruence|exact Hlt]. }
+  split.
+  { destruct (drain_terminates u (pmeasure u s') s' (le_n _) Hwf' HP') as (tr2 & s'' & Hd2 & Hrun2 & Hq2).
+    exists tr2, s''. split; [exact Hd2|]. split; [exact Hrun2|]. split; [exact Hq2|].
+    destruct (drain_run u tr2 s' s'' Hwf' HP' Hd2 Hrun2) as (_ & HP'' & _). apply ph_quiescent_agree; assumption. }
+  intros st ev H0 Hinf. apply (no_infinite_exchange u st ev); rewrite ?H0; assumption.
+Qed.
+Print Assumptions C05_single_operation_converges.
+
+(* non-vacuity: 3 peers, client 1 sets the parent; [ex_single] is such a run, it ends quiescent,
+   and a prefix of it is not quiescent (so the progress clause is not vacuous either) *)
+Example C05_single_operation_nonvacuous :
+  exists s1 s', pwf (pinit 2) /\ pquiescent (pinit 2) /\ pstep (pinit 2) (PSet 1%N 7%N) = Some s1 /\
+    Forall drain_event (tail ex_single) /\ prun s1 (tail ex_single) = Some s' /\ pquiescent s' /\
+    Agree s' (Some 7%N) /\ peffective_count s1 (tail ex_single) = 9 /\
+    (exists s2, prun s1 (take 4 (tail ex_single)) = Some s2 /\ ~ pquiescent s2).
+Proof.
+  destruct (pstep (pinit 2) (PSet 1%N 7%N)) as [s1|] eqn:H1; [|vm_compute in H1; discriminate].
+  assert (Hcons : forall r, prun s1 (tail ex_single) = r -> prun (pinit 2) ex_single = r).
+  { intros r Hr. change (prun (pinit 2) ex_single)
+      with (match pstep (pinit 2) (PSet 1%N 7%N) with Some x => prun x (tail ex_single) | None => None end).
+    rewrite H1. exact Hr. }
+  destruct (prun s1 (tail ex_single)) as [s'|] eqn:H2.
+  2:{ exfalso. pose proof (Hcons None eq_refl) as H. vm_compute in H. discriminate. }
+  pose proof (Hcons _ eq_refl) as Hrun.
+  assert (Hd : Forall drain_event (tail ex_single)) by (simpl; repeat constructor).
+  assert (Hq : pquiescent s').
+  { apply (bool_decide_eq_true_1 (pquiescent s')). change (pquiescentb s' = true).
+    assert (H : pquiescentb <$> prun (pinit 2) ex_single = Some true) by (vm_compute; reflexivity).
+    rewrite Hrun in H. simpl in H. congruence. }
+  exists s1, s'. split; [apply pinit_wf|]. split; [apply pinit_quiescent|]. split; [first [reflexivity|exact H1]|].
+  split; [exact Hd|]. split; [first [reflexivity|exact H2]|]. split; [exact Hq|]. split.
+  - apply (C05_single_operation_converges (pinit 2) 1%N 7%N s1 (tail ex_single) s'); auto using pinit_wf, pinit_quiescent.
+  - split.
+    + assert (H : match pstep (pinit 2) (PSet 1%N 7%N) with Some s1 => peffective_count s1 (tail ex_single) | None => 0 end = 9)
+        by (vm_compute; reflexivity).
+      rewrite H1 in H. exact H.
+    + destruct (prun s1 (take 4 (tail ex_single))) as [s2|] eqn:H3.
+      * exists s2. split; [reflexivity|]. intros Hq2.
+        assert (H : match pstep (pinit 2) (PSet 1%N 7%N) with
+                    | Some s1 => pquiescentb <$> prun s1 (take 4 (tail ex_single)) | None => None end = Some false)
+          by (vm_compute; reflexivity).
+        rewrite H1, H3 in H. simpl in H. injection H as H. apply bool_decide_eq_false in H. contradiction.
+      * exfalso.
+        assert (H : match pstep (pinit 2) (PSet 1%N 7%N) with
+                    | Some s1 => pquiescentb <$> prun s1 (take 4 (tail ex_single)) | None => None end = Some false)
+          by (vm_compute; reflexivity).
+        rewrite H1, H3 in H. discriminate.
+Qed.
+
+(* ================================================================================================
+   Part 8: histories -- operations separated by quiescence, safe joins (C05)
+   [PhI t s]: t = the parent given by the last PSet; None = nothing has ever been set.
+   ================================================================================================ *)
+
+Definition Ph0 (s : pstate) : Prop :=
+  (forall a b, plink s a b = []) /\ (forall p, pchg s p = false /\ ppar s p = None).
+Definition PhI (t : option puid) (s : pstate) : Prop :=
+  match t with Some u => Ph u s | None => Ph0 s end.
+
+Lemma ph0_quiescent s : Ph0 s -> pquiescent s.
+Proof. intros [Hl Hp]. apply quiescent_intro; [exact Hl|]. intros p. apply Hp. Qed.
+
+Lemma ph0_init n : Ph0 (pinit n).
+Proof. split; [intros a b; reflexivity|]. intros p. unfold pchg, ppar. rewrite pinit_pget. auto. Qed.
+
+Lemma phI_quiescent_agree t s : PhI t s -> pquiescent s -> Agree s t.
+Proof.
+  destruct t as [u|]; simpl; intros HP Hq.
+  - apply ph_quiescent_agree; assumption.
+  - intros p _. apply HP.
+Qed.
+
+Lemma ph0_join s c s' : Ph0 s -> pstep s (PJoin c) = Some s' -> Ph0 s'.
+Proof.
+  intros [Hl Hp] Hstep. pose proof (join_par s c s') as Hpar. pose proof (join_chg s c s') as Hchg.
+  specialize (fun q => Hpar q Hstep). specialize (fun q => Hchg q Hstep).
+  apply step_join in Hstep as (_ & _ & _ & _ & _ & _ & Hl').
+  split.
+  - intros a b. rewrite Hl'. destruct (decide _); [|apply Hl]. rewrite Hl. destruct (Hp host) as [_ ->]. reflexivity.
+  - intros p. rewrite Hpar, Hchg. apply Hp.
+Qed.
+
+(* what the history must respect at each event *)
+Definition ev_ok (t : option puid) (s : pstate) (e : pevent) : Prop :=
+  match e with
+  | PSet _ u => pquiescent s \/ t = Some u
+  | PJoin _ => ppar s host = None \/ ppar s host = t
+  | _ => True
+  end.
+Definition next_target (t : option puid) (e : pevent) : option puid :=
+  match e with PSet _ u => Some u | _ => t end.
+
+Lemma phI_step t s e s' :
+  pwf s -> PhI t s -> ev_ok t s e -> pstep s e = Some s' -> PhI (next_target t e) s'.
+Proof.
+  intros Hwf HP Hok Hstep. destruct e as [p u|p|src dst|c]; simpl in Hok |- *.
+  - destruct Hok as [Hq| ->]; [eapply ph_set_quiescent; eauto|eapply ph_set_same; eauto].
+  - destruct t as [u|]; simpl in HP |- *; [eapply ph_announce; eauto|].
+    destruct (quiescent_is_stable s (ph0_quiescent s HP) _ _ Hstep) as [[]| ->]. exact HP.
+  - destruct t as [u|]; simpl in HP |- *; [eapply ph_deliver; eauto|].
+    destruct (quiescent_is_stable s (ph0_quiescent s HP) _ _ Hstep) as [[]| ->]. exact HP.
+  - destruct t as [u|]; simpl in HP, Hok |- *; [eapply ph_join; eauto|eapply ph0_join; eauto].
+Qed.
+
+Lemma target_after_cons t e tr : target_after t (e :: tr) = target_after (next_target t e) tr.
+Proof. unfold target_after. simpl. destruct e; reflexivity. Qed.
+
+Lemma scan_ev_ok t s e s' tr :
+  pstep s e = Some s' -> s19_from t s (e :: tr) = false -> js_from t s (e :: tr) = true ->
+  ev_ok t s e /\ s19_from (next_target t e) s' tr = false /\ js_from (next_target t e) s' tr = true.
+Proof.
+  intros Hstep H19 Hjs. simpl in H19, Hjs. rewrite Hstep in H19, Hjs.
+  destruct e as [p u|p|src dst|c]; simpl; try (split; [exact I|split; assumption]).
+  - apply orb_false_iff in H19 as [Ha Hb]. split; [|split; assumption].
+    apply andb_false_iff in Ha as [Ha|Ha]; apply negb_false_iff in Ha.
+    + left. apply (bool_decide_eq_true_1 (pquiescent s)). exact Ha.
+    + right. apply bool_decide_eq_true in Ha. exact Ha.
+  - apply andb_true_iff in Hjs as [Ha Hb]. split; [|split; assumption].
+    apply bool_decide_eq_true in Ha. exact Ha.
+Qed.
+
+Lemma C05_general tr : forall t s s',
+  pwf s -> PhI t s -> s19_from t s tr = false -> js_from t s tr = true -> prun s tr = Some s' ->
+  pwf s' /\ PhI (target_after t tr) s'.
+Proof.
+  induction tr as [|e tr IH]; intros t s s' Hwf HP H19 Hjs Hrun.
+  - simpl in Hrun. injection Hrun as <-. split; assumption.
+  - simpl in Hrun. destruct (pstep s e) as [s1|] eqn:Hs; [|discriminate].
+    destruct (scan_ev_ok t s e s1 tr Hs H19 Hjs) as (Hok & H19' & Hjs').
+    rewrite target_after_cons. apply (IH _ s1); try assumption.
+    + eapply step_wf; eauto.
+    + eapply phI_step; eauto.
+Qed.
+
+Lemma s19_from_prefix t s tr1 tr2 : s19_from t s (tr1 ++ tr2) = false -> s19_from t s tr1 = false.
+Proof.
+  revert t s. induction tr1 as [|e tr1 IH]; intros t s H; simpl in *; [reflexivity|].
+  destruct (pstep s e) as [s1|]; [|reflexivity]. destruct e; eauto.
+  apply orb_false_iff in H as [Ha Hb]. rewrite Ha. simpl. eauto.
+Qed.
+
+Lemma js_from_prefix t s tr1 tr2 : js_from t s (tr1 ++ tr2) = true -> js_from t s tr1 = true.
+Proof.
+  revert t s. induction tr1 as [|e tr1 IH]; intros t s H; simpl in *; [reflexivity|].
+  destruct (pstep s e) as [s1|]; [|reflexivity]. destruct e; eauto.
+  apply andb_true_iff in H as [Ha Hb]. rewrite Ha. simpl. eauto.
+Qed.
+
+Lemma js_from_nojoin t s tr : pjoiners tr = [] -> js_from t s tr = true.
+Proof.
+  revert t s. induction tr as [|e tr IH]; intros t s H; simpl in *; [reflexivity|].
+  destruct (pstep s e) as [s1|]; [|reflexivity]. destruct e; simpl in H; try discriminate; eauto.
+Qed.
+
+(* a join at a quiescent state of a history outside [known_S19] is safe *)
+Lemma joins_quiescent_safe tr : forall t s,
+  pwf s -> PhI t s -> s19_from t s tr = false -> joins_quiescent s tr = true -> js_from t s tr = true.
+Proof.
+  induction tr as [|e tr IH]; intros t s Hwf HP H19 Hjq; [reflexivity|].
+  simpl in *. destruct (pstep s e) as [s1|] eqn:Hs; [|reflexivity].
+  pose proof (step_wf s e s1 Hwf Hs) as Hwf1.
+  destruct e as [p u|p|src dst|c].
+  - apply orb_false_iff in H19 as [Ha Hb]. apply (IH _ s1 Hwf1); [|exact Hb|exact Hjq].
+    apply (phI_step t s (PSet p u) s1 Hwf HP); [|exact Hs]. simpl.
+    apply andb_false_iff in Ha as [Ha|Ha]; apply negb_false_iff in Ha.
+    + left. apply (bool_decide_eq_true_1 (pquiescent s)). exact Ha.
+    + right. apply bool_decide_eq_true in Ha. exact Ha.
+  - apply (IH _ s1 Hwf1); [|exact H19|exact Hjq]. apply (phI_step t s (PAnnounce p) s1 Hwf HP I Hs).
+  - apply (IH _ s1 Hwf1); [|exact H19|exact Hjq]. apply (phI_step t s (PDeliver src dst) s1 Hwf HP I Hs).
+  - apply andb_true_iff in Hjq as [Hq Hjq]. apply (bool_decide_eq_true_1 (pquiescent s)) in Hq.
+    assert (Hh : ppar s host = t) by (apply (phI_quiescent_agree t s HP Hq); left; reflexivity).
+    apply andb_true_iff. split; [apply bool_decide_eq_true; right; exact Hh|].
+    apply (IH _ s1 Hwf1); [|exact H19|exact Hjq].
+    apply (phI_step t s (PJoin c) s1 Hwf HP); [|exact Hs]. simpl. right. exact Hh.
+Qed.
+
+Lemma pinit_host_par n : ppar (pinit n) host = None.
+Proof. unfold ppar. rewrite pinit_pget. reflexivity. Qed.
+
+(* C05, histories: operations on the child's parent by any peers, to any parents, each issued at a
+   quiescent state (or repeating the parent of the previous one), joins while the host has no parent
+   or already the last one: at every quiescent state all peers agree on the parent given by the
+   last PSet. *)
+Theorem C05_drain_separated_converge n tr s' :
+  prun (pinit n) tr = Some s' ->
+  known_S19 (pinit n) tr = false -> joins_safe (pinit n) tr = true ->
+  pquiescent s' -> Agree s' (last_set tr).
+Proof.
+  unfold known_S19, joins_safe. rewrite pinit_host_par. intros Hrun H19 Hjs Hq.
+  destruct (C05_general tr None (pinit n) s' (pinit_wf n) (ph0_init n) H19 Hjs Hrun) as [_ HP].
+  apply phI_quiescent_agree; assumption.
+Qed.
+Print Assumptions C05_drain_separated_converge.
+
+Theorem C05_every_quiescent_state n tr1 tr2 s1 :
+  prun (pinit n) tr1 = Some s1 ->
+  known_S19 (pinit n) (tr1 ++ tr2) = false -> joins_safe (pinit n) (tr1 ++ tr2) = true ->
+  pquiescent s1 -> Agree s1 (last_set tr1).
+Proof.
+  intros Hrun H19 Hjs. apply (C05_drain_separated_converge n tr1 s1 Hrun).
+  - eapply s19_from_prefix. exact H19.
+  - eapply js_from_prefix. exact Hjs.
+Qed.
+
+Corollary C05_drain_separated_no_joins n tr s' :
+  prun (pinit n) tr = Some s' -> known_S19 (pinit n) tr = false -> pjoiners tr = [] ->
+  pquiescent s' -> Agree s' (last_set tr).
+Proof. intros Hrun H19 Hj. apply (C05_drain_separated_converge n tr s' Hrun H19). apply js_from_nojoin. exact Hj. Qed.
+
+Corollary C05_drain_separated_joins_quiescent n tr s' :
+  prun (pinit n) tr = Some s' -> known_S19 (pinit n) tr = false -> joins_quiescent (pinit n) tr = true ->
+  pquiescent s' -> Agree s' (last_set tr).
+Proof.
+  intros Hrun H19 Hj. apply (C05_drain_separated_converge n tr s' Hrun H19).
+  unfold known_S19, joins_safe in *. rewrite pinit_host_par in *.
+  apply (joins_quiescent_safe tr None (pinit n) (pinit_wf n) (ph0_init n) H19 Hj).
+Qed.
+
+(* ... and such a history never leaves the exchange running for ever: after it, the pending
+   exchange can be completed, ends with the last parent everywhere, every effective event decreases
+   the measure, and there is no infinite continuation by announce / deliver events *)
+Theorem C05_drain_separated_terminates n tr s' :
+  prun (pinit n) tr = Some s' ->
+  known_S19 (pinit n) tr = false -> joins_safe (pinit n) tr = true ->
+  (exists tr2 s'', Forall drain_event tr2 /\ prun s' tr2 = Some s'' /\ pquiescent s'' /\ Agree s'' (last_set tr)) /\
+  (forall (st : nat -> pstate) (ev : nat -> pevent), st 0 = s' ->
+     (forall i, drain_event (ev i) /\ effective (st i) (ev i) = true /\ pstep (st i) (ev i) = Some (st (S i))) -> False).
+Proof.
+  unfold known_S19, joins_safe. rewrite pinit_host_par. intros Hrun H19 Hjs.
+  destruct (C05_general tr None (pinit n) s' (pinit_wf n) (ph0_init n) H19 Hjs Hrun) as [Hwf HP].
+  fold (last_set tr) in HP. destruct (last_set tr) as [u|]; simpl in HP.
+  - split.
+    + destruct (drain_terminates u (pmeasure u s') s' (le_n _) Hwf HP) as (tr2 & s'' & Hd2 & Hrun2 & Hq2).
+      exists tr2, s''. split; [exact Hd2|]. split; [exact Hrun2|]. split; [exact Hq2|].
+      destruct (drain_run u tr2 s' s'' Hwf HP Hd2 Hrun2) as (_ & HP'' & _). apply ph_quiescent_agree; assumption.
+    + intros st ev H0 Hinf. apply (no_infinite_exchange u st ev); rewrite ?H0; assumption.
+  - pose proof (ph0_quiescent s' HP) as Hq. split.
+    + exists [], s'. split; [constructor|]. split; [reflexivity|]. split; [exact Hq|]. intros p _. apply HP.
+    + intros st ev H0 Hinf. destruct (Hinf 0) as (He & Heff & Hs). rewrite H0 in Heff, Hs.
+      destruct (ev 0) as [p u|p|src dst|c]; simpl in He; try contradiction.
+      * simpl in Heff. rewrite (quiescent_chg _ _ Hq) in Heff. discriminate.
+      * simpl in Hs. rewrite (quiescent_link _ _ _ Hq) in Hs. discriminate.
+Qed.
+Print Assumptions C05_drain_separated_terminates.
+
+(* non-vacuity: three operations by three different peers (host included) and a join *)
+Definition ex_history : list pevent :=
+  (ex_single ++
+   [PSet 2 9; PAnnounce 2; PDeliver 2 0; PDeliver 0 1; PAnnounce 0; PAnnounce 1; PDeliver 1 0;
+    PDeliver 0 1; PDeliver 0 2; PDeliver 0 2;
+    PJoin 3; PDeliver 0 3; PAnnounce 3; PDeliver 3 0; PDeliver 0 1; PDeliver 0 2;
+    PSet 0 4; PSet 3 4; PAnnounce 0; PAnnounce 3])%N.
+Example C05_drain_separated_nonvacuous :
+  (fun s => pview s [0; 1; 2; 3]%N) <$> prun (pinit 2) ex_history
+    = Some ([Some 4; Some 9; Some 9; Some 4]%N, false) /\
+  known_S19 (pinit 2) ex_history = false /\ joins_safe (pinit 2) ex_history = true /\
+  joins_quiescent (pinit 2) ex_history = true /\
+  psets ex_history = [(1, 7); (2, 9); (0, 4); (3, 4)]%N /\ last_set ex_history = Some 4%N /\
+  (fun s => pview s [0; 1; 2; 3]%N) <$> prun (pinit 2) (take 26 ex_history)
+    = Some ([Some 9; Some 9; Some 9; Some 9]%N, true).
+Proof. vm_compute. auto 10. Qed.
+
+(* ================================================================================================
+   Part 9: joins
+   ================================================================================================ *)
+
+Lemma conn_step_mono s e s' c : pstep s e = Some s' -> c ∈ pconn s -> c ∈ pconn s'.
+Proof.
+  intros Hstep Hc. destruct e as [p u|p|src dst|c0]; simpl in Hstep.
+  - destruct (pp s !! p); [|discriminate]. injection Hstep as <-. exact Hc.
+  - destruct (pp s !! p) as [y|]; [|discriminate]. destruct (changed y); injection Hstep as <-; exact Hc.
+  - destruct (plink s src dst); [discriminate|]. destruct (pp s !! dst); [|discriminate].
+    injection Hstep as <-. exact Hc.
+  - destruct (_ || _); [discriminate|]. injection Hstep as <-. simpl. apply elem_of_app. left. exact Hc.
+Qed.
+
+Lemma conn_run_mono s tr s' c : prun s tr = Some s' -> c ∈ pconn s -> c ∈ pconn s'.
+Proof.
+  revert s. induction tr as [|e tr IH]; intros s Hrun Hc; simpl in Hrun; [congruence|].
+  destruct (pstep s e) as [s1|] eqn:Hs; [|discriminate]. eapply IH; [exact Hrun|]. eapply conn_step_mono; eauto.
+Qed.
+
+Lemma joined_connected s tr1 c tr2 s' : prun s (tr1 ++ PJoin c :: tr2) = Some s' -> c ∈ pconn s'.
+Proof.
+  rewrite prun_app. destruct (prun s tr1) as [s1|]; [|discriminate]. cbn [prun].
+  destruct (pstep s1 (PJoin c)) as [s2|] eqn:Hs; [|discriminate]. intros Hrun.
+  eapply conn_run_mono; [exact Hrun|]. apply step_join in Hs as (_ & _ & _ & Hc & _). rewrite Hc.
+  apply elem_of_app. right. apply elem_of_list_singleton. reflexivity.
+Qed.
+
+(* a client that joins during a history of drain-separated operations -- at any quiescent state,
+   and also in the middle of an exchange provided the host has no parent yet or already the new
+   one -- ends with the host's parent, the one given by the last PSet *)
+Theorem join_gets_parent n tr1 c tr2 s' :
+  let tr := tr1 ++ PJoin c :: tr2 in
+  prun (pinit n) tr = Some s' ->
+  known_S19 (pinit n) tr = false -> joins_safe (pinit n) tr = true ->
+  pquiescent s' -> ppar s' c = ppar s' host /\ ppar s' c = last_set tr.
+Proof.
+  intros tr Hrun H19 Hjs Hq.
+  pose proof (C05_drain_separated_converge n tr s' Hrun H19 Hjs Hq) as Ha.
+  rewrite (Ha c), (Ha host); [auto|left; reflexivity|right; eapply joined_connected; exact Hrun].
+Qed.
+Print Assumptions join_gets_parent.
+
+Corollary join_gets_parent_quiescent_joins n tr1 c tr2 s' :
+  let tr := tr1 ++ PJoin c :: tr2 in
+  prun (pinit n) tr = Some s' ->
+  known_S19 (pinit n) tr = false -> joins_quiescent (pinit n) tr = true ->
+  pquiescent s' -> ppar s' c = ppar s' host /\ ppar s' c = last_set tr.
+Proof.
+  intros tr Hrun H19 Hjq. apply (join_gets_parent n tr1 c tr2 s' Hrun H19).
+  unfold known_S19, joins_safe in *. rewrite pinit_host_par in *.
+  apply (joins_quiescent_safe tr None (pinit n) (pinit_wf n) (ph0_init n) H19 Hjq).
+Qed.
+
+(* non-vacuity: client 3 joins in the MIDDLE of the very first exchange (the host has nothing yet:
+   no snapshot; it is reached by the relay) and client 4 joins after the host got the parent *)
+Definition ex_join_mid : list pevent :=
+  [PSet 1 7; PAnnounce 1; PJoin 3; PDeliver 1 0; PJoin 4; PAnnounce 0;
+   PDeliver 0 2; PDeliver 0 3; PDeliver 0 4; PDeliver 0 1; PDeliver 0 2; PDeliver 0 3; PDeliver 0 4;
+   PAnnounce 2; PAnnounce 3; PAnnounce 4; PDeliver 2 0; PDeliver 3 0; PDeliver 4 0;
+   PDeliver 0 1; PDeliver 0 1; PDeliver 0 1; PDeliver 0 2; PDeliver 0 2; PDeliver 0 3; PDeliver 0 3;
+   PDeliver 0 4; PDeliver 0 4]%N.
+Example join_nonvacuous :
+  (fun s => pview s [0; 1; 2; 3; 4]%N) <$> prun (pinit 2) ex_join_mid
+    = Some ([Some 7; Some 7; Some 7; Some 7; Some 7]%N, true) /\
+  known_S19 (pinit 2) ex_join_mid = false /\ joins_safe (pinit 2) ex_join_mid = true /\
+  joins_quiescent (pinit 2) ex_join_mid = false.
+Proof. vm_compute. auto. Qed.
+
+(* The statement at full strength -- "at ANY moment" -- is FALSE.  If a client joins while a
+   RE-parenting is in flight and the host still has the old parent, the snapshot carries the old
+   parent; the joiner applies it and (no token for parents) announces it back to the host, which by
+   then has the new parent, finds the old one different, applies it and broadcasts it. *)
+Definition join_gets_parent_statement : Prop :=
+  forall n tr1 c tr2 s',
+    let tr := tr1 ++ PJoin c :: tr2 in
+    prun (pinit n) tr = Some s' -> known_S19 (pinit n) tr = false ->
+    pquiescent s' -> ppar s' c = ppar s' host /\ ppar s' c = last_set tr.
+
+(* (a) the re-parenting 7 -> 9 is lost on EVERY peer, its author included: quiescent with 7 *)
+Definition ex_join_lost_pre : list pevent :=
+  [PSet 1 7; PAnnounce 1; PDeliver 1 0; PAnnounce 0; PDeliver 0 1;        (* 7 everywhere, quiescent *)
+   PSet 1 9; PAnnounce 1]%N.
+Definition ex_join_lost_post : list pevent :=
+  [PDeliver 1 0; PDeliver 0 2; PAnnounce 2; PDeliver 2 0; PDeliver 0 1; PAnnounce 0;
+   PDeliver 0 2; PDeliver 0 2; PAnnounce 2; PAnnounce 1; PDeliver 0 1; PDeliver 1 0; PDeliver 2 0;
+   PDeliver 0 1; PDeliver 0 2]%N.
+
+Theorem join_any_moment_refuted : ~ join_gets_parent_statement.
+Proof.
+  intros H. specialize (H 1 ex_join_lost_pre 2%N ex_join_lost_post).
+  destruct (prun (pinit 1) (ex_join_lost_pre ++ PJoin 2%N :: ex_join_lost_post)) as [s'|] eqn:Hrun.
+  - assert (Hv : (fun s => (pquiescentb s, ppar s 2%N)) <$>
+                 prun (pinit 1) (ex_join_lost_pre ++ PJoin 2%N :: ex_join_lost_post) = Some (true, Some 7%N))
+      by (vm_compute; reflexivity).
+    rewrite Hrun in Hv. simpl in Hv. injection Hv as Hq Hp.
+    destruct (H s' Hrun) as [_ Hbad].
+    + vm_compute. reflexivity.
+    + apply (bool_decide_eq_true_1 (pquiescent s')). exact Hq.
+    + rewrite Hp in Hbad. vm_compute in Hbad. discriminate.
+  - vm_compute in Hrun. discriminate.
+Qed.
+Print Assumptions join_any_moment_refuted.
+
+Example join_lost_shape :
+  let tr := ex_join_lost_pre ++ PJoin 2%N :: ex_join_lost_post in
+  (fun s => pview s [0; 1; 2]%N) <$> prun (pinit 1) tr = Some ([Some 7; Some 7; Some 7]%N, true) /\
+  psets tr = [(1, 7); (1, 9)]%N /\ last_set tr = Some 9%N /\
+  known_S19 (pinit 1) tr = false /\ joins_safe (pinit 1) tr = false.
+Proof. vm_compute. auto. Qed.
+
+(* (b) from the same join the exchange can also go on for ever (lockstep frames: deliver, then
+   announce): a cycle of two rounds with 12 messages *)
+Definition ex_join_cycle_pre : list pevent :=
+  (ex_join_lost_pre ++
+   [PJoin 2; PDeliver 1 0; PDeliver 0 2; PAnnounce 2; PDeliver 0 2; PDeliver 2 0;
+    PAnnounce 0; PDeliver 0 1; PAnnounce 1; PAnnounce 2;
+    PDeliver 1 0; PDeliver 2 0; PAnnounce 0; PDeliver 0 1; PAnnounce 1; PDeliver 0 2; PAnnounce 2;
+    PDeliver 2 0; PAnnounce 0; PDeliver 0 1; PDeliver 0 1; PAnnounce 1; PDeliver 0 2; PDeliver 0 2; PAnnounce 2;
+    PDeliver 1 0; PDeliver 2 0; PAnnounce 0; PDeliver 0 1; PDeliver 0 1; PAnnounce 1; PDeliver 0 2; PAnnounce 2])%N.
+Definition ex_join_cycle_loop : list pevent :=
+  [PDeliver 1 0; PDeliver 2 0; PAnnounce 0; PDeliver 0 1; PDeliver 0 1; PAnnounce 1; PDeliver 0 2; PDeliver 0 2;
+   PAnnounce 2; PDeliver 1 0; PDeliver 2 0; PAnnounce 0; PDeliver 0 1; PDeliver 0 1; PAnnounce 1; PDeliver 0 2;
+   PDeliver 0 2; PAnnounce 2]%N.
+
+Theorem join_midflight_pingpong :
+  exists s, prun (pinit 1) ex_join_cycle_pre = Some s /\
+    prun s ex_join_cycle_loop = Some s /\ ptotal_sent s ex_join_cycle_loop = 12 /\
+    forallb (fun st => negb (pquiescentb st)) (pstates s ex_join_cycle_loop) = true /\
+    (forall k, prun (pinit 1) (ex_join_cycle_pre ++ iter_tr k ex_join_cycle_loop) = Some s /\
+               ptotal_sent (pinit 1) (ex_join_cycle_pre ++ iter_tr k ex_join_cycle_loop) = 27 + k * 12).
+Proof. apply cycle_check_sound. vm_compute. reflexivity. Qed.
+Print Assumptions join_midflight_pingpong.
+
+Example join_midflight_pingpong_shape :
+  psets ex_join_cycle_pre = [(1, 7); (1, 9)]%N /\ pjoiners ex_join_cycle_pre = [2%N] /\
+  known_S19 (pinit 1) ex_join_cycle_pre = false /\ joins_safe (pinit 1) ex_join_cycle_pre = false.
+Proof. vm_compute. auto. Qed.
+
+(* traffic of a join at a quiescent state: the snapshot, the joiner's echo, its relay to the others *)
+Theorem join_messages_bounded s c s1 tr s' :
+  pwf s -> pquiescent s -> (exists x, Agree s x) -> pstep s (PJoin c) = Some s1 ->
+  Forall drain_event tr -> prun s1 tr = Some s' ->
+  ptotal_sent s (PJoin c :: tr) <= length (pconn s) + 2 /\ (pquiescent s' -> Agree s' (ppar s host)).
+Proof.
+  intros Hwf Hq [x Ha] Hjoin Hd Hrun. cbn [ptotal_sent psent_by]. rewrite Hjoin.
+  pose proof (step_wf _ _ _ Hwf Hjoin) as Hwf1.
+  assert (Hh : ppar s host = x) by (apply Ha; left; reflexivity). rewrite Hh.
+  destruct x as [u|].
+  - pose proof (agree_quiescent_ph u s Hq Ha) as HP.
+    assert (HP1 : Ph u s1) by (eapply ph_join; eauto).
+    destruct (drain_run u tr s1 s' Hwf1 HP1 Hd Hrun) as (_ & HP' & _ & _ & Hs).
+    split; [|intros Hq'; apply ph_quiescent_agree; assumption].
+    pose proof (join_par s c s1) as Hpar. pose proof (join_chg s c s1) as Hchg.
+    specialize (fun q => Hpar q Hjoin). specialize (fun q => Hchg q Hjoin).
+    pose proof Hjoin as Hj. apply step_join in Hj as (Hch & Hcn & Hnone & Hc & _ & _ & Hl).
+    assert (Hcabs : ~ ppeers s c).
+    { intros H. apply (wf_exists s c Hwf) in H. rewrite Hnone in H. destruct H; discriminate. }
+    assert (H0 : forall q, ppeers s q -> pcnt1 u s1 q = 0).
+    { intros q Hq'. unfold pcnt1. rewrite Hpar, Hchg, (Ha q Hq'), (quiescent_chg _ _ Hq).
+      rewrite bool_decide_eq_true_2 by reflexivity. reflexivity. }
+    assert (Hcnt : pcnt u s1 = 1).
+    { unfold pcnt. rewrite Hc, sumf_app. rewrite (H0 host) by (left; reflexivity).
+      assert (Hz : sumf (pcnt1 u s1) (pconn s) = 0) by (apply sumf_zero; intros q Hq'; apply H0; right; exact Hq').
+      rewrite Hz. simpl. unfold pcnt1. rewrite Hpar, Hchg. destruct (wf_absent s c Hwf Hcabs) as [-> ->].
+      rewrite bool_decide_eq_false_2 by discriminate. reflexivity. }
+    assert (Hup : pups s1 = 0).
+    { unfold pups. apply sumf_zero. intros q _. rewrite Hl.
+      destruct (decide ((q, host) = (host, c))) as [E|_]; [congruence|]. rewrite (quiescent_link _ _ _ Hq). reflexivity. }
+    unfold ppotential in Hs at 2. rewrite Hcnt, Hup, Hc, app_length in Hs. simpl in *. nia.
+  - assert (HP : Ph0 s).
+    { split; [intros a b; apply quiescent_link; exact Hq|]. intros p. split; [apply quiescent_chg; exact Hq|].
+      destruct (decide (ppeers s p)) as [Hp|Hp]; [apply Ha; exact Hp|apply (wf_absent s p Hwf Hp)]. }
+    pose proof (ph0_join s c s1 HP Hjoin) as HP1.
+    destruct (quiescent_run_stable s1 tr s' (ph0_quiescent _ HP1) Hd Hrun) as [-> Hz].
+    rewrite Hz. simpl. split; [lia|]. intros _ p _. apply HP1.
+Qed.
+Print Assumptions join_messages_bounded.
